@@ -1,4 +1,5 @@
 import PhreeqcVerif.Lemmas.Gamma
+import Lean.Elab.Tactic
 import PhreeqcVerif.Gen.GammaSrc
 import Mathlib.Tactic.Ring
 import Mathlib.Tactic.Linarith
@@ -980,7 +981,7 @@ makes the obligation fail, and the check then runs its failing-input search. -/
 namespace PhreeqcVerif.C16Src
 open PhreeqcVerif.Gen.GammaSrc
 
-/-- `pitzer()` — transcribed by `Pitzer.pitzerP`, `lg1`, `fDH`, `osmot0`, `gamclm`, `pcorrOf`, `lnTermsConst`, `lnTermsI`, `osConst`, `osI`, `fVar`, `csumOf`, `presentOf` -/
+/-- `pitzer()`: the assembly — the loops over `s_list`, `param_list`, `ion_list`, the stores into `LGAMMA[]`, the MacInnes scaling — transcribed by `Pitzer.pitzerP`, `lg1`, `phimac`, `gamclm`, `presentOf`, `bigZOf` (the per-type additions, start values, `COSMOT`, `AW` are proved equal to generated definitions in `C16Gen`) -/
 theorem pitzerNF_as_modelled : pitzerNF = [
   ("$ret", "1"),
   ("AW", "t1 := ((spec[s_list[$k1]] != NULL) && (spec[s_list[$k1]]->in == 1)); t2 := [s_list[$k1]]; t3 := store($prev1{M[]}, t2 := 0.0); t4 := (((spec[s_list[$k1]]->type == 5) || (spec[s_list[$k1]]->type == 6)) || (spec[s_list[$k1]]->type == 7)); t5 := ite(t4, 0.0, under(spec[s_list[$k1]]->lm)); t6 := fold($k1 from 0 ++ while ($k1 < size(s_list)); init M[]; step ite(t1, store(t3, t2 := t5), t3)); t7 := fold($k1 from 0 ++ while ($k1 < size(s_list)); init 0.0; step ($prev1{OSUM} + sel(t6, t2))); t8 := (sel(t6, [pitz_params[param_list[$k1]]->ispec[0]]) * sel(t6, [pitz_params[param_list[$k1]]->ispec[1]])); t9 := (t8 * pitz_params[param_list[$k1]]->p); t10 := ($prev1{OSMOT} + t9); t11 := ite((pitz_params[param_list[$k1]]->p != 0.0), ($prev1{OSMOT} + (t9 * exp((-pitz_params[param_list[$k1]]->alpha * sqrt(mu_x))))), $prev1{OSMOT}); t12 := store($prev1{IPRSNT[]}, t2 := 0); t13 := fold($k1 from 0 ++ while ($k1 < size(s_list)); init IPRSNT[]; step ite(t1, ite((t5 > MIN_TOTAL), store(t12, t2 := !t4), t12), t12)); t14 := [pitz_params[param_list[$k1]]->ispec[2]]; t15 := (sel(ite((ICON == 1), store(t13, [IC] := 1), t13), t14) == 0); t16 := ((t8 * sel(t6, t14)) * pitz_params[param_list[$k1]]->p); t17 := ite(t15, $prev1{OSMOT}, ($prev1{OSMOT} + t16)); exp(((-t7 * (1.0 + ((2.0 * fold($k1 from 0 ++ while ($k1 < size(param_list)); init ((-A0 * pow(mu_x, 1.5)) / (1.0 + (1.2 * sqrt(mu_x)))); step switch(pitz_params[param_list[$k1]]->type; TYPE_B0 -> t10; TYPE_B1 -> t11; TYPE_B2 -> t11; TYPE_C0 -> ($prev1{OSMOT} + (((t8 * fold($k1 from 0 ++ while ($k1 < size(s_list)); init 0.0; step ($prev1{XX} + (sel(t6, t2) * fabs(spec[s_list[$k1]]->z))))) * pitz_params[param_list[$k1]]->p) / (2.0 * sqrt(fabs((spec[pitz_params[param_list[$k1]]->ispec[0]]->z * spec[pitz_params[param_list[$k1]]->ispec[1]]->z)))))); TYPE_ETA -> t17; TYPE_ETHETA -> ite((use_etheta == 1), ($prev1{OSMOT} + (t8 * (pitz_params[param_list[$k1]]->thetas->etheta + (mu_x * pitz_params[param_list[$k1]]->thetas->ethetap)))), $prev1{OSMOT}); TYPE_LAMBDA -> ($prev1{OSMOT} + (t9 * pitz_params[param_list[$k1]]->os_coef)); TYPE_MU -> ite(t15, $prev1{OSMOT}, ($prev1{OSMOT} + (t16 * pitz_params[param_list[$k1]]->os_coef))); TYPE_PSI -> t17; TYPE_THETA -> t10; TYPE_ZETA -> t17; else -> $prev1{OSMOT}))) / t7))) / 55.50837))"),
@@ -993,29 +994,7 @@ theorem pitzerNF_as_modelled : pitzerNF = [
   ("theta_params[]->ethetap", "ite((use_etheta == 1), fold($k1 from 0 ++ while ($k1 < size(theta_params)); init theta_params[]->ethetap; step store($prev1{theta_params[]->ethetap}, [$k1] := ETHETAS#out4(theta_params[$k1]->zj, theta_params[$k1]->zk, mu_x))), theta_params[]->ethetap)")
 ] := rfl
 
-/-- `G` — `Pitzer.G` -/
-theorem gNF_as_modelled : gNF = [
-  ("$ret", "ite((L_Y != 0.0), ((2.0 * (1.0 - ((1.0 + L_Y) * exp(-L_Y)))) / (L_Y * L_Y)), 0.0)")
-] := rfl
-
-/-- `GP` — `Pitzer.GP` -/
-theorem gpNF_as_modelled : gpNF = [
-  ("$ret", "ite((L_Y != 0.0), ((-2.0 * (1.0 - (((1.0 + L_Y) + ((L_Y * L_Y) / 2.0)) * exp(-L_Y)))) / (L_Y * L_Y)), 0.0)")
-] := rfl
-
-/-- `ETHETAS` — how `etheta` / `ethetap` are formed from J, J′ (`IRel`: `ethetap` is d(etheta)/dI) -/
-theorem ethetasNF_as_modelled : ethetasNF = [
-  ("$ret", "1"),
-  ("*etheta", "ite((ZJ == ZK), 0.0, (((ZJ * ZK) * ((JAY_XJK - (JAY_XJJ / 2.0)) - (JAY_XKK / 2.0))) / (4.0 * I)))"),
-  ("*ethetap", "ite((ZJ == ZK), 0.0, ((((ZJ * ZK) * ((JPRIME_XJK - (JPRIME_XJJ / 2.0)) - (JPRIME_XKK / 2.0))) / ((8.0 * I) * I)) - (ite((ZJ == ZK), 0.0, (((ZJ * ZK) * ((JAY_XJK - (JAY_XJJ / 2.0)) - (JAY_XKK / 2.0))) / (4.0 * I))) / I)))")
-] := rfl
-
-/-- `calc_pitz_param` — `Pitzer.calcParam` -/
-theorem calcParamNF_as_modelled : calcParamNF = [
-  ("pz_ptr->p", "ite((fabs((TK - TR)) < 0.001), pz_ptr->a[0], (((((pz_ptr->a[0] + (pz_ptr->a[1] * ((1.0 / TK) - (1.0 / TR)))) + (pz_ptr->a[2] * log((TK / TR)))) + (pz_ptr->a[3] * (TK - TR))) + (pz_ptr->a[4] * ((TK * TK) - (TR * TR)))) + (pz_ptr->a[5] * ((1.0 / (TK * TK)) - (1.0 / (TR * TR))))))")
-] := rfl
-
-/-- `sit()` — `Pitzer.sit`, `sitTerms`, `sitOs` -/
+/-- `sit()`: the assembly of the loops — `Pitzer.sit` -/
 theorem sitNF_as_modelled : sitNF = [
   ("$ret", "1"),
   ("AW", "t1 := [s_list[$k1]]; t2 := fold($k1 from 0 ++ while ($k1 < size(s_list)); init sit_M[]; step ite((spec[s_list[$k1]]->lm > log10(MIN_TOTAL)), store($prev1{sit_M[]}, t1 := under(spec[s_list[$k1]]->lm)), store($prev1{sit_M[]}, t1 := 0.0))); t3 := fold($k1 from 0 ++ while ($k1 < size(s_list)); init 0.0; step ($prev1{OSUM} + sel(t2, t1))); t4 := (1.0 + (1.5 * sqrt(mu_x))); t5 := ((spec[sit_params[param_list[$k1]]->ispec[0]]->z == 0.0) && (spec[sit_params[param_list[$k1]]->ispec[1]]->z == 0.0)); t6 := ((sel(t2, [sit_params[param_list[$k1]]->ispec[0]]) * sel(t2, [sit_params[param_list[$k1]]->ispec[1]])) * sit_params[param_list[$k1]]->p); t7 := ($prev1{OSMOT} + t6); exp(((-t3 * (1.0 + ((fold($k1 from 0 ++ while ($k1 < size(param_list)); init (((-2.0 * ((3 * sit_A0) / LOG_10)) / ((1.5 * 1.5) * 1.5)) * ((t4 - (2.0 * log(t4))) - (1.0 / t4))); step switch(sit_params[param_list[$k1]]->type; TYPE_SIT_EPSILON -> ite(t5, ($prev1{OSMOT} + (t6 / 2.0)), t7); TYPE_SIT_EPSILON_MU -> ite(t5, (t7 + ((t6 * mu_x) / 2.0)), (t7 + (t6 * mu_x))); else -> $prev1{OSMOT})) * LOG_10) / t3))) / 55.50837))"),
@@ -1025,32 +1004,19 @@ theorem sitNF_as_modelled : sitNF = [
   ("spec[]->lg_pitzer", "t1 := [s_list[$k1]]; t2 := [sit_params[param_list[$k1]]->ispec[0]]; t3 := sel($prev1{sit_LGAMMA[]}, t2); t4 := fold($k1 from 0 ++ while ($k1 < size(s_list)); init sit_M[]; step ite((spec[s_list[$k1]]->lm > log10(MIN_TOTAL)), store($prev1{sit_M[]}, t1 := under(spec[s_list[$k1]]->lm)), store($prev1{sit_M[]}, t1 := 0.0))); t5 := [sit_params[param_list[$k1]]->ispec[1]]; t6 := store($prev1{sit_LGAMMA[]}, t2 := (t3 + (sel(t4, t5) * sit_params[param_list[$k1]]->p))); t7 := store($prev1{sit_LGAMMA[]}, t2 := (t3 + ((sel(t4, t5) * mu_x) * sit_params[param_list[$k1]]->p))); t8 := [ion_list[$k1]]; fold($k1 from 0 ++ while ($k1 < size(s_list)); init spec[]->lg_pitzer; step store($prev1{spec[]->lg_pitzer}, t1 := sel(fold($k1 from 0 ++ while ($k1 < size(ion_list)); init fold($k1 from 0 ++ while ($k1 < size(param_list)); init fold($k1 from 0 ++ while ($k1 < size(s_list)); init sit_LGAMMA[]; step store($prev1{sit_LGAMMA[]}, t1 := 0.0)); step switch(sit_params[param_list[$k1]]->type; TYPE_SIT_EPSILON -> store(t6, t5 := (sel(t6, t5) + (sel(t4, t2) * sit_params[param_list[$k1]]->p))); TYPE_SIT_EPSILON_MU -> store(t7, t5 := (sel(t7, t5) + ((sel(t4, t2) * mu_x) * sit_params[param_list[$k1]]->p))); else -> $prev1{sit_LGAMMA[]})); step store($prev1{sit_LGAMMA[]}, t8 := (sel($prev1{sit_LGAMMA[]}, t8) + ((spec[ion_list[$k1]]->z * spec[ion_list[$k1]]->z) * (-((3 * sit_A0) / LOG_10) * (sqrt(mu_x) / (1.0 + (1.5 * sqrt(mu_x))))))))), t1)))")
 ] := rfl
 
-/-- `calc_sit_param` — `Pitzer.calcSitParam` -/
-theorem calcSitParamNF_as_modelled : calcSitParamNF = [
-  ("pz_ptr->p", "ite((fabs((TK - TR)) < 0.01), pz_ptr->a[0], ((((pz_ptr->a[0] + (pz_ptr->a[1] * ((1.0 / TK) - (1.0 / TR)))) + (pz_ptr->a[2] * log((TK / TR)))) + (pz_ptr->a[3] * (TK - TR))) + (pz_ptr->a[4] * ((TK * TK) - (TR * TR)))))")
-] := rfl
-
-/-- `gammas()`, aqueous branches and the LLNL block — `Gamma.lgOf`, `davies`, `wateq`, `bdot`, `co2Poly`, `clampMu`, `searchGo`, `weight`, `blend` -/
+/-- `gammas()`: the LLNL block with its search loop (`Gamma.searchGo`, `inRange`) and the early returns -/
 theorem gammasNF_as_modelled : gammasNF = [
   ("$ret", "t1 := (pitzer_model == 1); t2 := (sit_model == 1); ite((!t1 && !t2), 1, ite(t2, ite(t1, gammas_pz(1), gammas_sit()), ite(t1, gammas_pz(1), $noret)))"),
   ("a_llnl", "t1 := size(llnl_temp); t2 := (!(pitzer_model == 1) && !(sit_model == 1)); t3 := (tc_x <= llnl_temp[$k1]); t4 := ite((ite(t2, fold($k1 from 0 ++ while ($k1 < size(llnl_temp)); init t1; step ite(t3, $k1, $prev1{ilast}); exit (t2 && t3)), t1) == ite(t2, fold($k1 from 0 ++ while ($k1 < size(llnl_temp)); init 0; step ite((tc_x >= llnl_temp[$k1]), $k1, $prev1{ifirst}); exit (t2 && t3)), 0)), 1, ((tc_x - llnl_temp[ite((!(pitzer_model == 1) && !(sit_model == 1)), fold($k1 from 0 ++ while ($k1 < size(llnl_temp)); init 0; step ite((tc_x >= llnl_temp[$k1]), $k1, $prev1{ifirst}); exit ((!(pitzer_model == 1) && !(sit_model == 1)) && (tc_x <= llnl_temp[$k1]))), 0)]) / (llnl_temp[ite((!(pitzer_model == 1) && !(sit_model == 1)), fold($k1 from 0 ++ while ($k1 < size(llnl_temp)); init size(llnl_temp); step ite((tc_x <= llnl_temp[$k1]), $k1, $prev1{ilast}); exit ((!(pitzer_model == 1) && !(sit_model == 1)) && (tc_x <= llnl_temp[$k1]))), size(llnl_temp))] - llnl_temp[ite((!(pitzer_model == 1) && !(sit_model == 1)), fold($k1 from 0 ++ while ($k1 < size(llnl_temp)); init 0; step ite((tc_x >= llnl_temp[$k1]), $k1, $prev1{ifirst}); exit ((!(pitzer_model == 1) && !(sit_model == 1)) && (tc_x <= llnl_temp[$k1]))), 0)]))); ite((t1 > 0), ite(t2, (((1 - t4) * llnl_adh[ite((!(pitzer_model == 1) && !(sit_model == 1)), fold($k1 from 0 ++ while ($k1 < size(llnl_temp)); init 0; step ite((tc_x >= llnl_temp[$k1]), $k1, $prev1{ifirst}); exit ((!(pitzer_model == 1) && !(sit_model == 1)) && (tc_x <= llnl_temp[$k1]))), 0)]) + (t4 * llnl_adh[ite((!(pitzer_model == 1) && !(sit_model == 1)), fold($k1 from 0 ++ while ($k1 < size(llnl_temp)); init size(llnl_temp); step ite((tc_x <= llnl_temp[$k1]), $k1, $prev1{ilast}); exit ((!(pitzer_model == 1) && !(sit_model == 1)) && (tc_x <= llnl_temp[$k1]))), size(llnl_temp))])), a_llnl), ite(t2, 0, a_llnl))"),
   ("b_llnl", "t1 := size(llnl_temp); t2 := (!(pitzer_model == 1) && !(sit_model == 1)); t3 := (tc_x <= llnl_temp[$k1]); t4 := ite((ite(t2, fold($k1 from 0 ++ while ($k1 < size(llnl_temp)); init t1; step ite(t3, $k1, $prev1{ilast}); exit (t2 && t3)), t1) == ite(t2, fold($k1 from 0 ++ while ($k1 < size(llnl_temp)); init 0; step ite((tc_x >= llnl_temp[$k1]), $k1, $prev1{ifirst}); exit (t2 && t3)), 0)), 1, ((tc_x - llnl_temp[ite((!(pitzer_model == 1) && !(sit_model == 1)), fold($k1 from 0 ++ while ($k1 < size(llnl_temp)); init 0; step ite((tc_x >= llnl_temp[$k1]), $k1, $prev1{ifirst}); exit ((!(pitzer_model == 1) && !(sit_model == 1)) && (tc_x <= llnl_temp[$k1]))), 0)]) / (llnl_temp[ite((!(pitzer_model == 1) && !(sit_model == 1)), fold($k1 from 0 ++ while ($k1 < size(llnl_temp)); init size(llnl_temp); step ite((tc_x <= llnl_temp[$k1]), $k1, $prev1{ilast}); exit ((!(pitzer_model == 1) && !(sit_model == 1)) && (tc_x <= llnl_temp[$k1]))), size(llnl_temp))] - llnl_temp[ite((!(pitzer_model == 1) && !(sit_model == 1)), fold($k1 from 0 ++ while ($k1 < size(llnl_temp)); init 0; step ite((tc_x >= llnl_temp[$k1]), $k1, $prev1{ifirst}); exit ((!(pitzer_model == 1) && !(sit_model == 1)) && (tc_x <= llnl_temp[$k1]))), 0)]))); ite((t1 > 0), ite(t2, (((1 - t4) * llnl_bdh[ite((!(pitzer_model == 1) && !(sit_model == 1)), fold($k1 from 0 ++ while ($k1 < size(llnl_temp)); init 0; step ite((tc_x >= llnl_temp[$k1]), $k1, $prev1{ifirst}); exit ((!(pitzer_model == 1) && !(sit_model == 1)) && (tc_x <= llnl_temp[$k1]))), 0)]) + (t4 * llnl_bdh[ite((!(pitzer_model == 1) && !(sit_model == 1)), fold($k1 from 0 ++ while ($k1 < size(llnl_temp)); init size(llnl_temp); step ite((tc_x <= llnl_temp[$k1]), $k1, $prev1{ilast}); exit ((!(pitzer_model == 1) && !(sit_model == 1)) && (tc_x <= llnl_temp[$k1]))), size(llnl_temp))])), b_llnl), ite(t2, 0, b_llnl))"),
-  ("bdot_llnl", "t1 := size(llnl_temp); t2 := (!(pitzer_model == 1) && !(sit_model == 1)); t3 := (tc_x <= llnl_temp[$k1]); t4 := ite((ite(t2, fold($k1 from 0 ++ while ($k1 < size(llnl_temp)); init t1; step ite(t3, $k1, $prev1{ilast}); exit (t2 && t3)), t1) == ite(t2, fold($k1 from 0 ++ while ($k1 < size(llnl_temp)); init 0; step ite((tc_x >= llnl_temp[$k1]), $k1, $prev1{ifirst}); exit (t2 && t3)), 0)), 1, ((tc_x - llnl_temp[ite((!(pitzer_model == 1) && !(sit_model == 1)), fold($k1 from 0 ++ while ($k1 < size(llnl_temp)); init 0; step ite((tc_x >= llnl_temp[$k1]), $k1, $prev1{ifirst}); exit ((!(pitzer_model == 1) && !(sit_model == 1)) && (tc_x <= llnl_temp[$k1]))), 0)]) / (llnl_temp[ite((!(pitzer_model == 1) && !(sit_model == 1)), fold($k1 from 0 ++ while ($k1 < size(llnl_temp)); init size(llnl_temp); step ite((tc_x <= llnl_temp[$k1]), $k1, $prev1{ilast}); exit ((!(pitzer_model == 1) && !(sit_model == 1)) && (tc_x <= llnl_temp[$k1]))), size(llnl_temp))] - llnl_temp[ite((!(pitzer_model == 1) && !(sit_model == 1)), fold($k1 from 0 ++ while ($k1 < size(llnl_temp)); init 0; step ite((tc_x >= llnl_temp[$k1]), $k1, $prev1{ifirst}); exit ((!(pitzer_model == 1) && !(sit_model == 1)) && (tc_x <= llnl_temp[$k1]))), 0)]))); ite((t1 > 0), ite(t2, (((1 - t4) * llnl_bdot[ite((!(pitzer_model == 1) && !(sit_model == 1)), fold($k1 from 0 ++ while ($k1 < size(llnl_temp)); init 0; step ite((tc_x >= llnl_temp[$k1]), $k1, $prev1{ifirst}); exit ((!(pitzer_model == 1) && !(sit_model == 1)) && (tc_x <= llnl_temp[$k1]))), 0)]) + (t4 * llnl_bdot[ite((!(pitzer_model == 1) && !(sit_model == 1)), fold($k1 from 0 ++ while ($k1 < size(llnl_temp)); init size(llnl_temp); step ite((tc_x <= llnl_temp[$k1]), $k1, $prev1{ilast}); exit ((!(pitzer_model == 1) && !(sit_model == 1)) && (tc_x <= llnl_temp[$k1]))), size(llnl_temp))])), bdot_llnl), ite(t2, 0, bdot_llnl))"),
-  ("s_x[]->lg | gflag 0", "store($prev1{s_x[]->lg}, [$k1] := ite((!(pitzer_model == 1) && !(sit_model == 1)), (s_x[$k1]->dhb * ite((mu <= 0), 1e-10, mu)), sel($prev1{s_x[]->lg}, [$k1])))"),
-  ("s_x[]->lg | gflag 1", "t1 := ite((mu <= 0), 1e-10, mu); store($prev1{s_x[]->lg}, [$k1] := ite((!(pitzer_model == 1) && !(sit_model == 1)), (((-s_x[$k1]->z * s_x[$k1]->z) * DH_A) * ((sqrt(t1) / (1.0 + sqrt(t1))) - (0.3 * t1))), sel($prev1{s_x[]->lg}, [$k1])))"),
-  ("s_x[]->lg | gflag 2", "t1 := ite((mu <= 0), 1e-10, mu); store($prev1{s_x[]->lg}, [$k1] := ite((!(pitzer_model == 1) && !(sit_model == 1)), (((((-DH_A * sqrt(t1)) * s_x[$k1]->z) * s_x[$k1]->z) / (1.0 + ((s_x[$k1]->dha * DH_B) * sqrt(t1)))) + (s_x[$k1]->dhb * t1)), sel($prev1{s_x[]->lg}, [$k1])))"),
-  ("s_x[]->lg | gflag 3", "store($prev1{s_x[]->lg}, [$k1] := ite((!(pitzer_model == 1) && !(sit_model == 1)), 0.0, sel($prev1{s_x[]->lg}, [$k1])))"),
-  ("s_x[]->lg | gflag 5", "store($prev1{s_x[]->lg}, [$k1] := ite((!(pitzer_model == 1) && !(sit_model == 1)), 0.0, sel($prev1{s_x[]->lg}, [$k1])))"),
-  ("s_x[]->lg | gflag 7", "t1 := size(llnl_temp); t2 := (!(pitzer_model == 1) && !(sit_model == 1)); t3 := sel($prev1{s_x[]->lg}, [$k1]); t4 := (tc_x <= llnl_temp[$k1]); t5 := ite((ite(t2, fold($k1 from 0 ++ while ($k1 < size(llnl_temp)); init t1; step ite(t4, $k1, $prev1{ilast}); exit (t2 && t4)), t1) == ite(t2, fold($k1 from 0 ++ while ($k1 < size(llnl_temp)); init 0; step ite((tc_x >= llnl_temp[$k1]), $k1, $prev1{ifirst}); exit (t2 && t4)), 0)), 1, ((tc_x - llnl_temp[ite((!(pitzer_model == 1) && !(sit_model == 1)), fold($k1 from 0 ++ while ($k1 < size(llnl_temp)); init 0; step ite((tc_x >= llnl_temp[$k1]), $k1, $prev1{ifirst}); exit ((!(pitzer_model == 1) && !(sit_model == 1)) && (tc_x <= llnl_temp[$k1]))), 0)]) / (llnl_temp[ite((!(pitzer_model == 1) && !(sit_model == 1)), fold($k1 from 0 ++ while ($k1 < size(llnl_temp)); init size(llnl_temp); step ite((tc_x <= llnl_temp[$k1]), $k1, $prev1{ilast}); exit ((!(pitzer_model == 1) && !(sit_model == 1)) && (tc_x <= llnl_temp[$k1]))), size(llnl_temp))] - llnl_temp[ite((!(pitzer_model == 1) && !(sit_model == 1)), fold($k1 from 0 ++ while ($k1 < size(llnl_temp)); init 0; step ite((tc_x >= llnl_temp[$k1]), $k1, $prev1{ifirst}); exit ((!(pitzer_model == 1) && !(sit_model == 1)) && (tc_x <= llnl_temp[$k1]))), 0)]))); t6 := ite((mu <= 0), 1e-10, mu); ite((t1 > 0), ite((s_x[$k1]->z == 0), store($prev1{s_x[]->lg}, [$k1] := ite(t2, 0.0, t3)), store($prev1{s_x[]->lg}, [$k1] := ite(t2, (((((-ite((t1 > 0), ite(t2, (((1 - t5) * llnl_adh[ite((!(pitzer_model == 1) && !(sit_model == 1)), fold($k1 from 0 ++ while ($k1 < size(llnl_temp)); init 0; step ite((tc_x >= llnl_temp[$k1]), $k1, $prev1{ifirst}); exit ((!(pitzer_model == 1) && !(sit_model == 1)) && (tc_x <= llnl_temp[$k1]))), 0)]) + (t5 * llnl_adh[ite((!(pitzer_model == 1) && !(sit_model == 1)), fold($k1 from 0 ++ while ($k1 < size(llnl_temp)); init size(llnl_temp); step ite((tc_x <= llnl_temp[$k1]), $k1, $prev1{ilast}); exit ((!(pitzer_model == 1) && !(sit_model == 1)) && (tc_x <= llnl_temp[$k1]))), size(llnl_temp))])), a_llnl), ite(t2, 0, a_llnl)) * sqrt(t6)) * s_x[$k1]->z) * s_x[$k1]->z) / (1.0 + ((s_x[$k1]->dha * ite((t1 > 0), ite(t2, (((1 - t5) * llnl_bdh[ite((!(pitzer_model == 1) && !(sit_model == 1)), fold($k1 from 0 ++ while ($k1 < size(llnl_temp)); init 0; step ite((tc_x >= llnl_temp[$k1]), $k1, $prev1{ifirst}); exit ((!(pitzer_model == 1) && !(sit_model == 1)) && (tc_x <= llnl_temp[$k1]))), 0)]) + (t5 * llnl_bdh[ite((!(pitzer_model == 1) && !(sit_model == 1)), fold($k1 from 0 ++ while ($k1 < size(llnl_temp)); init size(llnl_temp); step ite((tc_x <= llnl_temp[$k1]), $k1, $prev1{ilast}); exit ((!(pitzer_model == 1) && !(sit_model == 1)) && (tc_x <= llnl_temp[$k1]))), size(llnl_temp))])), b_llnl), ite(t2, 0, b_llnl))) * sqrt(t6)))) + (ite((t1 > 0), ite(t2, (((1 - t5) * llnl_bdot[ite((!(pitzer_model == 1) && !(sit_model == 1)), fold($k1 from 0 ++ while ($k1 < size(llnl_temp)); init 0; step ite((tc_x >= llnl_temp[$k1]), $k1, $prev1{ifirst}); exit ((!(pitzer_model == 1) && !(sit_model == 1)) && (tc_x <= llnl_temp[$k1]))), 0)]) + (t5 * llnl_bdot[ite((!(pitzer_model == 1) && !(sit_model == 1)), fold($k1 from 0 ++ while ($k1 < size(llnl_temp)); init size(llnl_temp); step ite((tc_x <= llnl_temp[$k1]), $k1, $prev1{ilast}); exit ((!(pitzer_model == 1) && !(sit_model == 1)) && (tc_x <= llnl_temp[$k1]))), size(llnl_temp))])), bdot_llnl), ite(t2, 0, bdot_llnl)) * t6)), t3))), $prev1{s_x[]->lg})"),
-  ("s_x[]->lg | gflag 8", "t1 := (size(llnl_temp) > 0); t2 := ite((mu <= 0), 1e-10, mu); ite(t1, store($prev1{s_x[]->lg}, [$k1] := ite((!(pitzer_model == 1) && !(sit_model == 1)), ite(t1, (((((llnl_co2_coefs[0] + (llnl_co2_coefs[1] * tk_x)) + (llnl_co2_coefs[2] / tk_x)) * t2) - ((llnl_co2_coefs[3] + (llnl_co2_coefs[4] * tk_x)) * (t2 / (t2 + 1)))) / LOG_10), 0), sel($prev1{s_x[]->lg}, [$k1]))), $prev1{s_x[]->lg})"),
-  ("s_x[]->lg | gflag 9", "store($prev1{s_x[]->lg}, [$k1] := ite((!(pitzer_model == 1) && !(sit_model == 1)), log10((exp((s_h2o->la * LOG_10)) * gfw_water)), sel($prev1{s_x[]->lg}, [$k1])))")
+  ("bdot_llnl", "t1 := size(llnl_temp); t2 := (!(pitzer_model == 1) && !(sit_model == 1)); t3 := (tc_x <= llnl_temp[$k1]); t4 := ite((ite(t2, fold($k1 from 0 ++ while ($k1 < size(llnl_temp)); init t1; step ite(t3, $k1, $prev1{ilast}); exit (t2 && t3)), t1) == ite(t2, fold($k1 from 0 ++ while ($k1 < size(llnl_temp)); init 0; step ite((tc_x >= llnl_temp[$k1]), $k1, $prev1{ifirst}); exit (t2 && t3)), 0)), 1, ((tc_x - llnl_temp[ite((!(pitzer_model == 1) && !(sit_model == 1)), fold($k1 from 0 ++ while ($k1 < size(llnl_temp)); init 0; step ite((tc_x >= llnl_temp[$k1]), $k1, $prev1{ifirst}); exit ((!(pitzer_model == 1) && !(sit_model == 1)) && (tc_x <= llnl_temp[$k1]))), 0)]) / (llnl_temp[ite((!(pitzer_model == 1) && !(sit_model == 1)), fold($k1 from 0 ++ while ($k1 < size(llnl_temp)); init size(llnl_temp); step ite((tc_x <= llnl_temp[$k1]), $k1, $prev1{ilast}); exit ((!(pitzer_model == 1) && !(sit_model == 1)) && (tc_x <= llnl_temp[$k1]))), size(llnl_temp))] - llnl_temp[ite((!(pitzer_model == 1) && !(sit_model == 1)), fold($k1 from 0 ++ while ($k1 < size(llnl_temp)); init 0; step ite((tc_x >= llnl_temp[$k1]), $k1, $prev1{ifirst}); exit ((!(pitzer_model == 1) && !(sit_model == 1)) && (tc_x <= llnl_temp[$k1]))), 0)]))); ite((t1 > 0), ite(t2, (((1 - t4) * llnl_bdot[ite((!(pitzer_model == 1) && !(sit_model == 1)), fold($k1 from 0 ++ while ($k1 < size(llnl_temp)); init 0; step ite((tc_x >= llnl_temp[$k1]), $k1, $prev1{ifirst}); exit ((!(pitzer_model == 1) && !(sit_model == 1)) && (tc_x <= llnl_temp[$k1]))), 0)]) + (t4 * llnl_bdot[ite((!(pitzer_model == 1) && !(sit_model == 1)), fold($k1 from 0 ++ while ($k1 < size(llnl_temp)); init size(llnl_temp); step ite((tc_x <= llnl_temp[$k1]), $k1, $prev1{ilast}); exit ((!(pitzer_model == 1) && !(sit_model == 1)) && (tc_x <= llnl_temp[$k1]))), size(llnl_temp))])), bdot_llnl), ite(t2, 0, bdot_llnl))")
 ] := rfl
 
 /-- `pitzer_tidy` — `lambdaCoefs`, `muLn`, `muOs`, the default and `-ALPHAS` values of alpha -/
 theorem tidyNF_as_modelled : tidyNF = [
-  ("pitz_params[]->alpha", "t1 := fabs(spec[sel(fold($k1 from 0 ++ while ($k1 < size(pitz_params)); init pitz_params[]->ispec[]; step fold($k2 from 0 ++ while ($k2 < 3); init $prev1{pitz_params[]->ispec[]}; step store($prev2{pitz_params[]->ispec[]}, [$k1; $k2] := ISPEC(pitz_params[$k1]->species[$k2])))), [$k1; 0])]->z); t2 := fabs(spec[sel(fold($k1 from 0 ++ while ($k1 < size(pitz_params)); init pitz_params[]->ispec[]; step fold($k2 from 0 ++ while ($k2 < 3); init $prev1{pitz_params[]->ispec[]}; step store($prev2{pitz_params[]->ispec[]}, [$k1; $k2] := ISPEC(pitz_params[$k1]->species[$k2])))), [$k1; 1])]->z); t3 := ite((equal(t1, 1.0, 1e-08) || equal(t2, 1.0, 1e-08)), 1, ite((equal(t1, 2.0, 1e-08) && equal(t2, 2.0, 1e-08)), 2, 3)); t4 := store($prev1{pitz_params[]->alpha}, [$k1] := 2.0); t5 := store($prev1{pitz_params[]->alpha}, [$k1] := 12.0); t6 := fold($k1 from 0 ++ while ($k1 < size(pitz_params)); init pitz_params[]->ispec[]; step fold($k2 from 0 ++ while ($k2 < 3); init $prev1{pitz_params[]->ispec[]}; step store($prev2{pitz_params[]->ispec[]}, [$k1; $k2] := ISPEC(pitz_params[$k1]->species[$k2])))); t7 := !(sel(t6, [$k1; 0]) != sel(t6, [$k2; 0])); t8 := !(sel(t6, [$k1; 1]) != sel(t6, [$k2; 1])); t9 := ((!(pitz_params[$k2]->type != TYPE_B1) && t7) && t8); t10 := sel($prev2{pitz_params[]->alpha}, [$k2]); t11 := ((!(pitz_params[$k2]->type != TYPE_B2) && t7) && t8); fold($k1 from 0 ++ while ($k1 < size(pitz_params)); init fold($k1 from 0 ++ while ($k1 < size(pitz_params)); init pitz_params[]->alpha; step ite((pitz_params[$k1]->type == TYPE_B1), switch(t3; 1 -> t4; 2 -> store($prev1{pitz_params[]->alpha}, [$k1] := 1.4); 3 -> t4; else -> $prev1{pitz_params[]->alpha}), ite((pitz_params[$k1]->type == TYPE_B2), switch(t3; 1 -> t5; 2 -> t5; 3 -> store($prev1{pitz_params[]->alpha}, [$k1] := 50.0); else -> $prev1{pitz_params[]->alpha}), $prev1{pitz_params[]->alpha}))); step ite((pitz_params[$k1]->type == TYPE_ALPHAS), fold($k2 from 0 ++ while ($k2 < size(pitz_params)); init fold($k2 from 0 ++ while ($k2 < size(pitz_params)); init $prev1{pitz_params[]->alpha}; step store($prev2{pitz_params[]->alpha}, [$k2] := ite(t9, pitz_params[$k1]->a[0], t10)); exit t9); step store($prev2{pitz_params[]->alpha}, [$k2] := ite(t11, pitz_params[$k1]->a[1], t10)); exit t11), $prev1{pitz_params[]->alpha}))"),
-  ("pitz_params[]->ln_coef[]", "t1 := fold($k1 from 0 ++ while ($k1 < size(pitz_params)); init pitz_params[]->ispec[]; step fold($k2 from 0 ++ while ($k2 < 3); init $prev1{pitz_params[]->ispec[]}; step store($prev2{pitz_params[]->ispec[]}, [$k1; $k2] := ISPEC(pitz_params[$k1]->species[$k2])))); t2 := fold($k2 from 0 ++ while ($k2 <= 2); init $prev1{count[]}; step fold($k3 from 0 ++ while ($k3 <= 2); init store($prev2{count[]}, [$k2] := 0); step ite((sel(t1, [$k1; $k2]) == sel(t1, [$k1; $k3])), store($prev3{count[]}, [$k2] := (sel($prev3{count[]}, [$k2]) + 1)), $prev3{count[]}))); t3 := sel(t2, [$k2]); t4 := ((spec[sel(fold($k1 from 0 ++ while ($k1 < size(pitz_params)); init pitz_params[]->ispec[]; step fold($k2 from 0 ++ while ($k2 < 3); init $prev1{pitz_params[]->ispec[]}; step store($prev2{pitz_params[]->ispec[]}, [$k1; $k2] := ISPEC(pitz_params[$k1]->species[$k2])))), [$k1; $k2])]->z < 0) || (spec[sel(fold($k1 from 0 ++ while ($k1 < size(pitz_params)); init pitz_params[]->ispec[]; step fold($k2 from 0 ++ while ($k2 < 3); init $prev1{pitz_params[]->ispec[]}; step store($prev2{pitz_params[]->ispec[]}, [$k1; $k2] := ISPEC(pitz_params[$k1]->species[$k2])))), [$k1; $k2])]->z > 0)); t5 := ((sel(t2, [0]) > 1) || (sel(t2, [1]) > 1)); t6 := ite(t4, ite(t5, store($prev2{pitz_params[]->ln_coef[]}, [$k1; $k2] := 3), store($prev2{pitz_params[]->ln_coef[]}, [$k1; $k2] := 6)), $prev2{pitz_params[]->ln_coef[]}); t7 := sel(t6, [$k1; $k2]); t8 := store(t6, [$k1; $k2] := ite(t4, t7, 3)); fold($k1 from 0 ++ while ($k1 < size(pitz_params)); init fold($k1 from 0 ++ while ($k1 < size(pitz_params)); init pitz_params[]->ln_coef[]; step ite((pitz_params[$k1]->type == TYPE_MU), fold($k2 from 0 ++ while ($k2 <= 2); init $prev1{pitz_params[]->ln_coef[]}; step ite((t3 == 3), store(t6, [$k1; $k2] := ite(t4, t7, 1)), ite((t3 == 2), t8, ite((t3 == 1), ite(t5, t8, store(t6, [$k1; $k2] := ite(t4, t7, 6))), t6)))), $prev1{pitz_params[]->ln_coef[]})); step ite((pitz_params[$k1]->type == TYPE_LAMBDA), ite((sel(t1, [$k1; 0]) == sel(t1, [$k1; 1])), store(store($prev1{pitz_params[]->ln_coef[]}, [$k1; 0] := 1), [$k1; 1] := 1), store(store($prev1{pitz_params[]->ln_coef[]}, [$k1; 0] := 2), [$k1; 1] := 2)), $prev1{pitz_params[]->ln_coef[]}))"),
-  ("pitz_params[]->os_coef", "t1 := fold($k1 from 0 ++ while ($k1 < size(pitz_params)); init pitz_params[]->ispec[]; step fold($k2 from 0 ++ while ($k2 < 3); init $prev1{pitz_params[]->ispec[]}; step store($prev2{pitz_params[]->ispec[]}, [$k1; $k2] := ISPEC(pitz_params[$k1]->species[$k2])))); t2 := sel(t1, [$k1; 0]); t3 := sel(t1, [$k1; 1]); t4 := sel(t1, [$k1; 2]); t5 := (((t2 == t3) || (t3 == t4)) || (t2 == t4)); t6 := (fold($k2 from 0 ++ while ($k2 <= 2); init 0; step ite((spec[sel(fold($k1 from 0 ++ while ($k1 < size(pitz_params)); init pitz_params[]->ispec[]; step fold($k2 from 0 ++ while ($k2 < 3); init $prev1{pitz_params[]->ispec[]}; step store($prev2{pitz_params[]->ispec[]}, [$k1; $k2] := ISPEC(pitz_params[$k1]->species[$k2])))), [$k1; $k2])]->z == 0), ($prev2{count_neut} + 1), $prev2{count_neut})) == 3); t7 := store($prev1{pitz_params[]->os_coef}, [$k1] := 1); t8 := ite(t6, ite(((t2 == t3) && (t3 == t4)), t7, ite(t5, store($prev1{pitz_params[]->os_coef}, [$k1] := 3), store($prev1{pitz_params[]->os_coef}, [$k1] := 6))), $prev1{pitz_params[]->os_coef}); t9 := sel(t8, [$k1]); fold($k1 from 0 ++ while ($k1 < size(pitz_params)); init fold($k1 from 0 ++ while ($k1 < size(pitz_params)); init pitz_params[]->os_coef; step ite((pitz_params[$k1]->type == TYPE_MU), ite(t5, store(t8, [$k1] := ite(t6, t9, 3)), store(t8, [$k1] := ite(t6, t9, 6))), $prev1{pitz_params[]->os_coef})); step ite((pitz_params[$k1]->type == TYPE_LAMBDA), ite((t2 == t3), store($prev1{pitz_params[]->os_coef}, [$k1] := 0.5), t7), $prev1{pitz_params[]->os_coef}))")
+  ("pitz_params[]->alpha", "t1 := fabs(spec[sel(fold($k1 from 0 ++ while ($k1 < size(pitz_params)); init pitz_params[]->ispec[]; step store(store(store($prev1{pitz_params[]->ispec[]}, [$k1; 0] := ISPEC(pitz_params[$k1]->species[0])), [$k1; 1] := ite((((0 < 2) && (ISPEC(pitz_params[$k1]->species[0]) == -1)) || (((0 == 2) && ((pitz_params[$k1]->type == TYPE_PSI) || (pitz_params[$k1]->type == TYPE_ZETA))) && (ISPEC(pitz_params[$k1]->species[0]) == -1))), sel(store($prev1{pitz_params[]->ispec[]}, [$k1; 0] := ISPEC(pitz_params[$k1]->species[0])), [$k1; 1]), ISPEC(pitz_params[$k1]->species[1]))), [$k1; 2] := ite((!(((0 < 2) && (ISPEC(pitz_params[$k1]->species[0]) == -1)) || (((0 == 2) && ((pitz_params[$k1]->type == TYPE_PSI) || (pitz_params[$k1]->type == TYPE_ZETA))) && (ISPEC(pitz_params[$k1]->species[0]) == -1))) && !(((1 < 2) && (ite((((0 < 2) && (ISPEC(pitz_params[$k1]->species[0]) == -1)) || (((0 == 2) && ((pitz_params[$k1]->type == TYPE_PSI) || (pitz_params[$k1]->type == TYPE_ZETA))) && (ISPEC(pitz_params[$k1]->species[0]) == -1))), sel(store($prev1{pitz_params[]->ispec[]}, [$k1; 0] := ISPEC(pitz_params[$k1]->species[0])), [$k1; 1]), ISPEC(pitz_params[$k1]->species[1])) == -1)) || (((1 == 2) && ((pitz_params[$k1]->type == TYPE_PSI) || (pitz_params[$k1]->type == TYPE_ZETA))) && (ite((((0 < 2) && (ISPEC(pitz_params[$k1]->species[0]) == -1)) || (((0 == 2) && ((pitz_params[$k1]->type == TYPE_PSI) || (pitz_params[$k1]->type == TYPE_ZETA))) && (ISPEC(pitz_params[$k1]->species[0]) == -1))), sel(store($prev1{pitz_params[]->ispec[]}, [$k1; 0] := ISPEC(pitz_params[$k1]->species[0])), [$k1; 1]), ISPEC(pitz_params[$k1]->species[1])) == -1)))), ISPEC(pitz_params[$k1]->species[2]), sel(store(store($prev1{pitz_params[]->ispec[]}, [$k1; 0] := ISPEC(pitz_params[$k1]->species[0])), [$k1; 1] := ite((((0 < 2) && (ISPEC(pitz_params[$k1]->species[0]) == -1)) || (((0 == 2) && ((pitz_params[$k1]->type == TYPE_PSI) || (pitz_params[$k1]->type == TYPE_ZETA))) && (ISPEC(pitz_params[$k1]->species[0]) == -1))), sel(store($prev1{pitz_params[]->ispec[]}, [$k1; 0] := ISPEC(pitz_params[$k1]->species[0])), [$k1; 1]), ISPEC(pitz_params[$k1]->species[1]))), [$k1; 2])))), [$k1; 0])]->z); t2 := fabs(spec[sel(fold($k1 from 0 ++ while ($k1 < size(pitz_params)); init pitz_params[]->ispec[]; step store(store(store($prev1{pitz_params[]->ispec[]}, [$k1; 0] := ISPEC(pitz_params[$k1]->species[0])), [$k1; 1] := ite((((0 < 2) && (ISPEC(pitz_params[$k1]->species[0]) == -1)) || (((0 == 2) && ((pitz_params[$k1]->type == TYPE_PSI) || (pitz_params[$k1]->type == TYPE_ZETA))) && (ISPEC(pitz_params[$k1]->species[0]) == -1))), sel(store($prev1{pitz_params[]->ispec[]}, [$k1; 0] := ISPEC(pitz_params[$k1]->species[0])), [$k1; 1]), ISPEC(pitz_params[$k1]->species[1]))), [$k1; 2] := ite((!(((0 < 2) && (ISPEC(pitz_params[$k1]->species[0]) == -1)) || (((0 == 2) && ((pitz_params[$k1]->type == TYPE_PSI) || (pitz_params[$k1]->type == TYPE_ZETA))) && (ISPEC(pitz_params[$k1]->species[0]) == -1))) && !(((1 < 2) && (ite((((0 < 2) && (ISPEC(pitz_params[$k1]->species[0]) == -1)) || (((0 == 2) && ((pitz_params[$k1]->type == TYPE_PSI) || (pitz_params[$k1]->type == TYPE_ZETA))) && (ISPEC(pitz_params[$k1]->species[0]) == -1))), sel(store($prev1{pitz_params[]->ispec[]}, [$k1; 0] := ISPEC(pitz_params[$k1]->species[0])), [$k1; 1]), ISPEC(pitz_params[$k1]->species[1])) == -1)) || (((1 == 2) && ((pitz_params[$k1]->type == TYPE_PSI) || (pitz_params[$k1]->type == TYPE_ZETA))) && (ite((((0 < 2) && (ISPEC(pitz_params[$k1]->species[0]) == -1)) || (((0 == 2) && ((pitz_params[$k1]->type == TYPE_PSI) || (pitz_params[$k1]->type == TYPE_ZETA))) && (ISPEC(pitz_params[$k1]->species[0]) == -1))), sel(store($prev1{pitz_params[]->ispec[]}, [$k1; 0] := ISPEC(pitz_params[$k1]->species[0])), [$k1; 1]), ISPEC(pitz_params[$k1]->species[1])) == -1)))), ISPEC(pitz_params[$k1]->species[2]), sel(store(store($prev1{pitz_params[]->ispec[]}, [$k1; 0] := ISPEC(pitz_params[$k1]->species[0])), [$k1; 1] := ite((((0 < 2) && (ISPEC(pitz_params[$k1]->species[0]) == -1)) || (((0 == 2) && ((pitz_params[$k1]->type == TYPE_PSI) || (pitz_params[$k1]->type == TYPE_ZETA))) && (ISPEC(pitz_params[$k1]->species[0]) == -1))), sel(store($prev1{pitz_params[]->ispec[]}, [$k1; 0] := ISPEC(pitz_params[$k1]->species[0])), [$k1; 1]), ISPEC(pitz_params[$k1]->species[1]))), [$k1; 2])))), [$k1; 1])]->z); t3 := ite((equal(t1, 1.0, 1e-08) || equal(t2, 1.0, 1e-08)), 1, ite((equal(t1, 2.0, 1e-08) && equal(t2, 2.0, 1e-08)), 2, 3)); t4 := store($prev1{pitz_params[]->alpha}, [$k1] := 2.0); t5 := store($prev1{pitz_params[]->alpha}, [$k1] := 12.0); t6 := ISPEC(pitz_params[$k1]->species[0]); t7 := store($prev1{pitz_params[]->ispec[]}, [$k1; 0] := t6); t8 := ((pitz_params[$k1]->type == TYPE_PSI) || (pitz_params[$k1]->type == TYPE_ZETA)); t9 := (((0 < 2) && (t6 == -1)) || (((0 == 2) && t8) && (t6 == -1))); t10 := ite(t9, sel(t7, [$k1; 1]), ISPEC(pitz_params[$k1]->species[1])); t11 := store(t7, [$k1; 1] := t10); t12 := fold($k1 from 0 ++ while ($k1 < size(pitz_params)); init pitz_params[]->ispec[]; step store(t11, [$k1; 2] := ite((!t9 && !(((1 < 2) && (t10 == -1)) || (((1 == 2) && t8) && (t10 == -1)))), ISPEC(pitz_params[$k1]->species[2]), sel(t11, [$k1; 2])))); t13 := !(sel(t12, [$k1; 0]) != sel(t12, [$k2; 0])); t14 := !(sel(t12, [$k1; 1]) != sel(t12, [$k2; 1])); t15 := ((!(pitz_params[$k2]->type != TYPE_B1) && t13) && t14); t16 := sel($prev2{pitz_params[]->alpha}, [$k2]); t17 := ((!(pitz_params[$k2]->type != TYPE_B2) && t13) && t14); fold($k1 from 0 ++ while ($k1 < size(pitz_params)); init fold($k1 from 0 ++ while ($k1 < size(pitz_params)); init pitz_params[]->alpha; step ite((pitz_params[$k1]->type == TYPE_B1), switch(t3; 1 -> t4; 2 -> store($prev1{pitz_params[]->alpha}, [$k1] := 1.4); 3 -> t4; else -> $prev1{pitz_params[]->alpha}), ite((pitz_params[$k1]->type == TYPE_B2), switch(t3; 1 -> t5; 2 -> t5; 3 -> store($prev1{pitz_params[]->alpha}, [$k1] := 50.0); else -> $prev1{pitz_params[]->alpha}), $prev1{pitz_params[]->alpha}))); step ite((pitz_params[$k1]->type == TYPE_ALPHAS), fold($k2 from 0 ++ while ($k2 < size(pitz_params)); init fold($k2 from 0 ++ while ($k2 < size(pitz_params)); init $prev1{pitz_params[]->alpha}; step store($prev2{pitz_params[]->alpha}, [$k2] := ite(t15, pitz_params[$k1]->a[0], t16)); exit t15); step store($prev2{pitz_params[]->alpha}, [$k2] := ite(t17, pitz_params[$k1]->a[1], t16)); exit t17), $prev1{pitz_params[]->alpha}))"),
+  ("pitz_params[]->ln_coef[]", "t1 := ISPEC(pitz_params[$k1]->species[0]); t2 := store($prev1{pitz_params[]->ispec[]}, [$k1; 0] := t1); t3 := ((pitz_params[$k1]->type == TYPE_PSI) || (pitz_params[$k1]->type == TYPE_ZETA)); t4 := (((0 < 2) && (t1 == -1)) || (((0 == 2) && t3) && (t1 == -1))); t5 := ite(t4, sel(t2, [$k1; 1]), ISPEC(pitz_params[$k1]->species[1])); t6 := store(t2, [$k1; 1] := t5); t7 := fold($k1 from 0 ++ while ($k1 < size(pitz_params)); init pitz_params[]->ispec[]; step store(t6, [$k1; 2] := ite((!t4 && !(((1 < 2) && (t5 == -1)) || (((1 == 2) && t3) && (t5 == -1)))), ISPEC(pitz_params[$k1]->species[2]), sel(t6, [$k1; 2])))); t8 := sel(t7, [$k1; 2]); t9 := sel(t7, [$k1; 1]); t10 := sel(t7, [$k1; 0]); t11 := store($prev1{count[]}, [0] := 0); t12 := ite((t10 == t10), store(t11, [0] := (0 + 1)), t11); t13 := ite((t10 == t9), store(t12, [0] := (sel(t12, [0]) + 1)), t12); t14 := store(ite((t10 == t8), store(t13, [0] := (sel(t13, [0]) + 1)), t13), [1] := 0); t15 := ite((t9 == t10), store(t14, [1] := (0 + 1)), t14); t16 := ite((t9 == t9), store(t15, [1] := (sel(t15, [1]) + 1)), t15); t17 := store(ite((t9 == t8), store(t16, [1] := (sel(t16, [1]) + 1)), t16), [2] := 0); t18 := ite((t8 == t10), store(t17, [2] := (0 + 1)), t17); t19 := ite((t8 == t9), store(t18, [2] := (sel(t18, [2]) + 1)), t18); t20 := ite((t8 == t8), store(t19, [2] := (sel(t19, [2]) + 1)), t19); t21 := sel(t20, [2]); t22 := ((spec[sel(fold($k1 from 0 ++ while ($k1 < size(pitz_params)); init pitz_params[]->ispec[]; step store(store(store($prev1{pitz_params[]->ispec[]}, [$k1; 0] := ISPEC(pitz_params[$k1]->species[0])), [$k1; 1] := ite((((0 < 2) && (ISPEC(pitz_params[$k1]->species[0]) == -1)) || (((0 == 2) && ((pitz_params[$k1]->type == TYPE_PSI) || (pitz_params[$k1]->type == TYPE_ZETA))) && (ISPEC(pitz_params[$k1]->species[0]) == -1))), sel(store($prev1{pitz_params[]->ispec[]}, [$k1; 0] := ISPEC(pitz_params[$k1]->species[0])), [$k1; 1]), ISPEC(pitz_params[$k1]->species[1]))), [$k1; 2] := ite((!(((0 < 2) && (ISPEC(pitz_params[$k1]->species[0]) == -1)) || (((0 == 2) && ((pitz_params[$k1]->type == TYPE_PSI) || (pitz_params[$k1]->type == TYPE_ZETA))) && (ISPEC(pitz_params[$k1]->species[0]) == -1))) && !(((1 < 2) && (ite((((0 < 2) && (ISPEC(pitz_params[$k1]->species[0]) == -1)) || (((0 == 2) && ((pitz_params[$k1]->type == TYPE_PSI) || (pitz_params[$k1]->type == TYPE_ZETA))) && (ISPEC(pitz_params[$k1]->species[0]) == -1))), sel(store($prev1{pitz_params[]->ispec[]}, [$k1; 0] := ISPEC(pitz_params[$k1]->species[0])), [$k1; 1]), ISPEC(pitz_params[$k1]->species[1])) == -1)) || (((1 == 2) && ((pitz_params[$k1]->type == TYPE_PSI) || (pitz_params[$k1]->type == TYPE_ZETA))) && (ite((((0 < 2) && (ISPEC(pitz_params[$k1]->species[0]) == -1)) || (((0 == 2) && ((pitz_params[$k1]->type == TYPE_PSI) || (pitz_params[$k1]->type == TYPE_ZETA))) && (ISPEC(pitz_params[$k1]->species[0]) == -1))), sel(store($prev1{pitz_params[]->ispec[]}, [$k1; 0] := ISPEC(pitz_params[$k1]->species[0])), [$k1; 1]), ISPEC(pitz_params[$k1]->species[1])) == -1)))), ISPEC(pitz_params[$k1]->species[2]), sel(store(store($prev1{pitz_params[]->ispec[]}, [$k1; 0] := ISPEC(pitz_params[$k1]->species[0])), [$k1; 1] := ite((((0 < 2) && (ISPEC(pitz_params[$k1]->species[0]) == -1)) || (((0 == 2) && ((pitz_params[$k1]->type == TYPE_PSI) || (pitz_params[$k1]->type == TYPE_ZETA))) && (ISPEC(pitz_params[$k1]->species[0]) == -1))), sel(store($prev1{pitz_params[]->ispec[]}, [$k1; 0] := ISPEC(pitz_params[$k1]->species[0])), [$k1; 1]), ISPEC(pitz_params[$k1]->species[1]))), [$k1; 2])))), [$k1; 2])]->z < 0) || (spec[sel(fold($k1 from 0 ++ while ($k1 < size(pitz_params)); init pitz_params[]->ispec[]; step store(store(store($prev1{pitz_params[]->ispec[]}, [$k1; 0] := ISPEC(pitz_params[$k1]->species[0])), [$k1; 1] := ite((((0 < 2) && (ISPEC(pitz_params[$k1]->species[0]) == -1)) || (((0 == 2) && ((pitz_params[$k1]->type == TYPE_PSI) || (pitz_params[$k1]->type == TYPE_ZETA))) && (ISPEC(pitz_params[$k1]->species[0]) == -1))), sel(store($prev1{pitz_params[]->ispec[]}, [$k1; 0] := ISPEC(pitz_params[$k1]->species[0])), [$k1; 1]), ISPEC(pitz_params[$k1]->species[1]))), [$k1; 2] := ite((!(((0 < 2) && (ISPEC(pitz_params[$k1]->species[0]) == -1)) || (((0 == 2) && ((pitz_params[$k1]->type == TYPE_PSI) || (pitz_params[$k1]->type == TYPE_ZETA))) && (ISPEC(pitz_params[$k1]->species[0]) == -1))) && !(((1 < 2) && (ite((((0 < 2) && (ISPEC(pitz_params[$k1]->species[0]) == -1)) || (((0 == 2) && ((pitz_params[$k1]->type == TYPE_PSI) || (pitz_params[$k1]->type == TYPE_ZETA))) && (ISPEC(pitz_params[$k1]->species[0]) == -1))), sel(store($prev1{pitz_params[]->ispec[]}, [$k1; 0] := ISPEC(pitz_params[$k1]->species[0])), [$k1; 1]), ISPEC(pitz_params[$k1]->species[1])) == -1)) || (((1 == 2) && ((pitz_params[$k1]->type == TYPE_PSI) || (pitz_params[$k1]->type == TYPE_ZETA))) && (ite((((0 < 2) && (ISPEC(pitz_params[$k1]->species[0]) == -1)) || (((0 == 2) && ((pitz_params[$k1]->type == TYPE_PSI) || (pitz_params[$k1]->type == TYPE_ZETA))) && (ISPEC(pitz_params[$k1]->species[0]) == -1))), sel(store($prev1{pitz_params[]->ispec[]}, [$k1; 0] := ISPEC(pitz_params[$k1]->species[0])), [$k1; 1]), ISPEC(pitz_params[$k1]->species[1])) == -1)))), ISPEC(pitz_params[$k1]->species[2]), sel(store(store($prev1{pitz_params[]->ispec[]}, [$k1; 0] := ISPEC(pitz_params[$k1]->species[0])), [$k1; 1] := ite((((0 < 2) && (ISPEC(pitz_params[$k1]->species[0]) == -1)) || (((0 == 2) && ((pitz_params[$k1]->type == TYPE_PSI) || (pitz_params[$k1]->type == TYPE_ZETA))) && (ISPEC(pitz_params[$k1]->species[0]) == -1))), sel(store($prev1{pitz_params[]->ispec[]}, [$k1; 0] := ISPEC(pitz_params[$k1]->species[0])), [$k1; 1]), ISPEC(pitz_params[$k1]->species[1]))), [$k1; 2])))), [$k1; 2])]->z > 0)); t23 := sel(t20, [0]); t24 := sel(t20, [1]); t25 := ((t23 > 1) || (t24 > 1)); t26 := ((spec[sel(fold($k1 from 0 ++ while ($k1 < size(pitz_params)); init pitz_params[]->ispec[]; step store(store(store($prev1{pitz_params[]->ispec[]}, [$k1; 0] := ISPEC(pitz_params[$k1]->species[0])), [$k1; 1] := ite((((0 < 2) && (ISPEC(pitz_params[$k1]->species[0]) == -1)) || (((0 == 2) && ((pitz_params[$k1]->type == TYPE_PSI) || (pitz_params[$k1]->type == TYPE_ZETA))) && (ISPEC(pitz_params[$k1]->species[0]) == -1))), sel(store($prev1{pitz_params[]->ispec[]}, [$k1; 0] := ISPEC(pitz_params[$k1]->species[0])), [$k1; 1]), ISPEC(pitz_params[$k1]->species[1]))), [$k1; 2] := ite((!(((0 < 2) && (ISPEC(pitz_params[$k1]->species[0]) == -1)) || (((0 == 2) && ((pitz_params[$k1]->type == TYPE_PSI) || (pitz_params[$k1]->type == TYPE_ZETA))) && (ISPEC(pitz_params[$k1]->species[0]) == -1))) && !(((1 < 2) && (ite((((0 < 2) && (ISPEC(pitz_params[$k1]->species[0]) == -1)) || (((0 == 2) && ((pitz_params[$k1]->type == TYPE_PSI) || (pitz_params[$k1]->type == TYPE_ZETA))) && (ISPEC(pitz_params[$k1]->species[0]) == -1))), sel(store($prev1{pitz_params[]->ispec[]}, [$k1; 0] := ISPEC(pitz_params[$k1]->species[0])), [$k1; 1]), ISPEC(pitz_params[$k1]->species[1])) == -1)) || (((1 == 2) && ((pitz_params[$k1]->type == TYPE_PSI) || (pitz_params[$k1]->type == TYPE_ZETA))) && (ite((((0 < 2) && (ISPEC(pitz_params[$k1]->species[0]) == -1)) || (((0 == 2) && ((pitz_params[$k1]->type == TYPE_PSI) || (pitz_params[$k1]->type == TYPE_ZETA))) && (ISPEC(pitz_params[$k1]->species[0]) == -1))), sel(store($prev1{pitz_params[]->ispec[]}, [$k1; 0] := ISPEC(pitz_params[$k1]->species[0])), [$k1; 1]), ISPEC(pitz_params[$k1]->species[1])) == -1)))), ISPEC(pitz_params[$k1]->species[2]), sel(store(store($prev1{pitz_params[]->ispec[]}, [$k1; 0] := ISPEC(pitz_params[$k1]->species[0])), [$k1; 1] := ite((((0 < 2) && (ISPEC(pitz_params[$k1]->species[0]) == -1)) || (((0 == 2) && ((pitz_params[$k1]->type == TYPE_PSI) || (pitz_params[$k1]->type == TYPE_ZETA))) && (ISPEC(pitz_params[$k1]->species[0]) == -1))), sel(store($prev1{pitz_params[]->ispec[]}, [$k1; 0] := ISPEC(pitz_params[$k1]->species[0])), [$k1; 1]), ISPEC(pitz_params[$k1]->species[1]))), [$k1; 2])))), [$k1; 1])]->z < 0) || (spec[sel(fold($k1 from 0 ++ while ($k1 < size(pitz_params)); init pitz_params[]->ispec[]; step store(store(store($prev1{pitz_params[]->ispec[]}, [$k1; 0] := ISPEC(pitz_params[$k1]->species[0])), [$k1; 1] := ite((((0 < 2) && (ISPEC(pitz_params[$k1]->species[0]) == -1)) || (((0 == 2) && ((pitz_params[$k1]->type == TYPE_PSI) || (pitz_params[$k1]->type == TYPE_ZETA))) && (ISPEC(pitz_params[$k1]->species[0]) == -1))), sel(store($prev1{pitz_params[]->ispec[]}, [$k1; 0] := ISPEC(pitz_params[$k1]->species[0])), [$k1; 1]), ISPEC(pitz_params[$k1]->species[1]))), [$k1; 2] := ite((!(((0 < 2) && (ISPEC(pitz_params[$k1]->species[0]) == -1)) || (((0 == 2) && ((pitz_params[$k1]->type == TYPE_PSI) || (pitz_params[$k1]->type == TYPE_ZETA))) && (ISPEC(pitz_params[$k1]->species[0]) == -1))) && !(((1 < 2) && (ite((((0 < 2) && (ISPEC(pitz_params[$k1]->species[0]) == -1)) || (((0 == 2) && ((pitz_params[$k1]->type == TYPE_PSI) || (pitz_params[$k1]->type == TYPE_ZETA))) && (ISPEC(pitz_params[$k1]->species[0]) == -1))), sel(store($prev1{pitz_params[]->ispec[]}, [$k1; 0] := ISPEC(pitz_params[$k1]->species[0])), [$k1; 1]), ISPEC(pitz_params[$k1]->species[1])) == -1)) || (((1 == 2) && ((pitz_params[$k1]->type == TYPE_PSI) || (pitz_params[$k1]->type == TYPE_ZETA))) && (ite((((0 < 2) && (ISPEC(pitz_params[$k1]->species[0]) == -1)) || (((0 == 2) && ((pitz_params[$k1]->type == TYPE_PSI) || (pitz_params[$k1]->type == TYPE_ZETA))) && (ISPEC(pitz_params[$k1]->species[0]) == -1))), sel(store($prev1{pitz_params[]->ispec[]}, [$k1; 0] := ISPEC(pitz_params[$k1]->species[0])), [$k1; 1]), ISPEC(pitz_params[$k1]->species[1])) == -1)))), ISPEC(pitz_params[$k1]->species[2]), sel(store(store($prev1{pitz_params[]->ispec[]}, [$k1; 0] := ISPEC(pitz_params[$k1]->species[0])), [$k1; 1] := ite((((0 < 2) && (ISPEC(pitz_params[$k1]->species[0]) == -1)) || (((0 == 2) && ((pitz_params[$k1]->type == TYPE_PSI) || (pitz_params[$k1]->type == TYPE_ZETA))) && (ISPEC(pitz_params[$k1]->species[0]) == -1))), sel(store($prev1{pitz_params[]->ispec[]}, [$k1; 0] := ISPEC(pitz_params[$k1]->species[0])), [$k1; 1]), ISPEC(pitz_params[$k1]->species[1]))), [$k1; 2])))), [$k1; 1])]->z > 0)); t27 := ((spec[sel(fold($k1 from 0 ++ while ($k1 < size(pitz_params)); init pitz_params[]->ispec[]; step store(store(store($prev1{pitz_params[]->ispec[]}, [$k1; 0] := ISPEC(pitz_params[$k1]->species[0])), [$k1; 1] := ite((((0 < 2) && (ISPEC(pitz_params[$k1]->species[0]) == -1)) || (((0 == 2) && ((pitz_params[$k1]->type == TYPE_PSI) || (pitz_params[$k1]->type == TYPE_ZETA))) && (ISPEC(pitz_params[$k1]->species[0]) == -1))), sel(store($prev1{pitz_params[]->ispec[]}, [$k1; 0] := ISPEC(pitz_params[$k1]->species[0])), [$k1; 1]), ISPEC(pitz_params[$k1]->species[1]))), [$k1; 2] := ite((!(((0 < 2) && (ISPEC(pitz_params[$k1]->species[0]) == -1)) || (((0 == 2) && ((pitz_params[$k1]->type == TYPE_PSI) || (pitz_params[$k1]->type == TYPE_ZETA))) && (ISPEC(pitz_params[$k1]->species[0]) == -1))) && !(((1 < 2) && (ite((((0 < 2) && (ISPEC(pitz_params[$k1]->species[0]) == -1)) || (((0 == 2) && ((pitz_params[$k1]->type == TYPE_PSI) || (pitz_params[$k1]->type == TYPE_ZETA))) && (ISPEC(pitz_params[$k1]->species[0]) == -1))), sel(store($prev1{pitz_params[]->ispec[]}, [$k1; 0] := ISPEC(pitz_params[$k1]->species[0])), [$k1; 1]), ISPEC(pitz_params[$k1]->species[1])) == -1)) || (((1 == 2) && ((pitz_params[$k1]->type == TYPE_PSI) || (pitz_params[$k1]->type == TYPE_ZETA))) && (ite((((0 < 2) && (ISPEC(pitz_params[$k1]->species[0]) == -1)) || (((0 == 2) && ((pitz_params[$k1]->type == TYPE_PSI) || (pitz_params[$k1]->type == TYPE_ZETA))) && (ISPEC(pitz_params[$k1]->species[0]) == -1))), sel(store($prev1{pitz_params[]->ispec[]}, [$k1; 0] := ISPEC(pitz_params[$k1]->species[0])), [$k1; 1]), ISPEC(pitz_params[$k1]->species[1])) == -1)))), ISPEC(pitz_params[$k1]->species[2]), sel(store(store($prev1{pitz_params[]->ispec[]}, [$k1; 0] := ISPEC(pitz_params[$k1]->species[0])), [$k1; 1] := ite((((0 < 2) && (ISPEC(pitz_params[$k1]->species[0]) == -1)) || (((0 == 2) && ((pitz_params[$k1]->type == TYPE_PSI) || (pitz_params[$k1]->type == TYPE_ZETA))) && (ISPEC(pitz_params[$k1]->species[0]) == -1))), sel(store($prev1{pitz_params[]->ispec[]}, [$k1; 0] := ISPEC(pitz_params[$k1]->species[0])), [$k1; 1]), ISPEC(pitz_params[$k1]->species[1]))), [$k1; 2])))), [$k1; 0])]->z < 0) || (spec[sel(fold($k1 from 0 ++ while ($k1 < size(pitz_params)); init pitz_params[]->ispec[]; step store(store(store($prev1{pitz_params[]->ispec[]}, [$k1; 0] := ISPEC(pitz_params[$k1]->species[0])), [$k1; 1] := ite((((0 < 2) && (ISPEC(pitz_params[$k1]->species[0]) == -1)) || (((0 == 2) && ((pitz_params[$k1]->type == TYPE_PSI) || (pitz_params[$k1]->type == TYPE_ZETA))) && (ISPEC(pitz_params[$k1]->species[0]) == -1))), sel(store($prev1{pitz_params[]->ispec[]}, [$k1; 0] := ISPEC(pitz_params[$k1]->species[0])), [$k1; 1]), ISPEC(pitz_params[$k1]->species[1]))), [$k1; 2] := ite((!(((0 < 2) && (ISPEC(pitz_params[$k1]->species[0]) == -1)) || (((0 == 2) && ((pitz_params[$k1]->type == TYPE_PSI) || (pitz_params[$k1]->type == TYPE_ZETA))) && (ISPEC(pitz_params[$k1]->species[0]) == -1))) && !(((1 < 2) && (ite((((0 < 2) && (ISPEC(pitz_params[$k1]->species[0]) == -1)) || (((0 == 2) && ((pitz_params[$k1]->type == TYPE_PSI) || (pitz_params[$k1]->type == TYPE_ZETA))) && (ISPEC(pitz_params[$k1]->species[0]) == -1))), sel(store($prev1{pitz_params[]->ispec[]}, [$k1; 0] := ISPEC(pitz_params[$k1]->species[0])), [$k1; 1]), ISPEC(pitz_params[$k1]->species[1])) == -1)) || (((1 == 2) && ((pitz_params[$k1]->type == TYPE_PSI) || (pitz_params[$k1]->type == TYPE_ZETA))) && (ite((((0 < 2) && (ISPEC(pitz_params[$k1]->species[0]) == -1)) || (((0 == 2) && ((pitz_params[$k1]->type == TYPE_PSI) || (pitz_params[$k1]->type == TYPE_ZETA))) && (ISPEC(pitz_params[$k1]->species[0]) == -1))), sel(store($prev1{pitz_params[]->ispec[]}, [$k1; 0] := ISPEC(pitz_params[$k1]->species[0])), [$k1; 1]), ISPEC(pitz_params[$k1]->species[1])) == -1)))), ISPEC(pitz_params[$k1]->species[2]), sel(store(store($prev1{pitz_params[]->ispec[]}, [$k1; 0] := ISPEC(pitz_params[$k1]->species[0])), [$k1; 1] := ite((((0 < 2) && (ISPEC(pitz_params[$k1]->species[0]) == -1)) || (((0 == 2) && ((pitz_params[$k1]->type == TYPE_PSI) || (pitz_params[$k1]->type == TYPE_ZETA))) && (ISPEC(pitz_params[$k1]->species[0]) == -1))), sel(store($prev1{pitz_params[]->ispec[]}, [$k1; 0] := ISPEC(pitz_params[$k1]->species[0])), [$k1; 1]), ISPEC(pitz_params[$k1]->species[1]))), [$k1; 2])))), [$k1; 0])]->z > 0)); t28 := ite(t27, ite(t25, store($prev1{pitz_params[]->ln_coef[]}, [$k1; 0] := 3), store($prev1{pitz_params[]->ln_coef[]}, [$k1; 0] := 6)), $prev1{pitz_params[]->ln_coef[]}); t29 := sel(t28, [$k1; 0]); t30 := store(t28, [$k1; 0] := ite(t27, t29, 3)); t31 := ite((t23 == 3), store(t28, [$k1; 0] := ite(t27, t29, 1)), ite((t23 == 2), t30, ite((t23 == 1), ite(t25, t30, store(t28, [$k1; 0] := ite(t27, t29, 6))), t28))); t32 := ite(t26, ite(t25, store(t31, [$k1; 1] := 3), store(t31, [$k1; 1] := 6)), t31); t33 := sel(t32, [$k1; 1]); t34 := store(t32, [$k1; 1] := ite(t26, t33, 3)); t35 := ite((t24 == 3), store(t32, [$k1; 1] := ite(t26, t33, 1)), ite((t24 == 2), t34, ite((t24 == 1), ite(t25, t34, store(t32, [$k1; 1] := ite(t26, t33, 6))), t32))); t36 := ite(t22, ite(t25, store(t35, [$k1; 2] := 3), store(t35, [$k1; 2] := 6)), t35); t37 := sel(t36, [$k1; 2]); t38 := store(t36, [$k1; 2] := ite(t22, t37, 3)); fold($k1 from 0 ++ while ($k1 < size(pitz_params)); init fold($k1 from 0 ++ while ($k1 < size(pitz_params)); init pitz_params[]->ln_coef[]; step ite((pitz_params[$k1]->type == TYPE_MU), ite((t21 == 3), store(t36, [$k1; 2] := ite(t22, t37, 1)), ite((t21 == 2), t38, ite((t21 == 1), ite(t25, t38, store(t36, [$k1; 2] := ite(t22, t37, 6))), t36))), $prev1{pitz_params[]->ln_coef[]})); step ite((pitz_params[$k1]->type == TYPE_LAMBDA), ite((t10 == t9), store(store($prev1{pitz_params[]->ln_coef[]}, [$k1; 0] := 1), [$k1; 1] := 1), store(store($prev1{pitz_params[]->ln_coef[]}, [$k1; 0] := 2), [$k1; 1] := 2)), $prev1{pitz_params[]->ln_coef[]}))"),
+  ("pitz_params[]->os_coef", "t1 := ISPEC(pitz_params[$k1]->species[0]); t2 := store($prev1{pitz_params[]->ispec[]}, [$k1; 0] := t1); t3 := ((pitz_params[$k1]->type == TYPE_PSI) || (pitz_params[$k1]->type == TYPE_ZETA)); t4 := (((0 < 2) && (t1 == -1)) || (((0 == 2) && t3) && (t1 == -1))); t5 := ite(t4, sel(t2, [$k1; 1]), ISPEC(pitz_params[$k1]->species[1])); t6 := store(t2, [$k1; 1] := t5); t7 := fold($k1 from 0 ++ while ($k1 < size(pitz_params)); init pitz_params[]->ispec[]; step store(t6, [$k1; 2] := ite((!t4 && !(((1 < 2) && (t5 == -1)) || (((1 == 2) && t3) && (t5 == -1)))), ISPEC(pitz_params[$k1]->species[2]), sel(t6, [$k1; 2])))); t8 := sel(t7, [$k1; 0]); t9 := sel(t7, [$k1; 1]); t10 := sel(t7, [$k1; 2]); t11 := (((t8 == t9) || (t9 == t10)) || (t8 == t10)); t12 := ite((spec[sel(fold($k1 from 0 ++ while ($k1 < size(pitz_params)); init pitz_params[]->ispec[]; step store(store(store($prev1{pitz_params[]->ispec[]}, [$k1; 0] := ISPEC(pitz_params[$k1]->species[0])), [$k1; 1] := ite((((0 < 2) && (ISPEC(pitz_params[$k1]->species[0]) == -1)) || (((0 == 2) && ((pitz_params[$k1]->type == TYPE_PSI) || (pitz_params[$k1]->type == TYPE_ZETA))) && (ISPEC(pitz_params[$k1]->species[0]) == -1))), sel(store($prev1{pitz_params[]->ispec[]}, [$k1; 0] := ISPEC(pitz_params[$k1]->species[0])), [$k1; 1]), ISPEC(pitz_params[$k1]->species[1]))), [$k1; 2] := ite((!(((0 < 2) && (ISPEC(pitz_params[$k1]->species[0]) == -1)) || (((0 == 2) && ((pitz_params[$k1]->type == TYPE_PSI) || (pitz_params[$k1]->type == TYPE_ZETA))) && (ISPEC(pitz_params[$k1]->species[0]) == -1))) && !(((1 < 2) && (ite((((0 < 2) && (ISPEC(pitz_params[$k1]->species[0]) == -1)) || (((0 == 2) && ((pitz_params[$k1]->type == TYPE_PSI) || (pitz_params[$k1]->type == TYPE_ZETA))) && (ISPEC(pitz_params[$k1]->species[0]) == -1))), sel(store($prev1{pitz_params[]->ispec[]}, [$k1; 0] := ISPEC(pitz_params[$k1]->species[0])), [$k1; 1]), ISPEC(pitz_params[$k1]->species[1])) == -1)) || (((1 == 2) && ((pitz_params[$k1]->type == TYPE_PSI) || (pitz_params[$k1]->type == TYPE_ZETA))) && (ite((((0 < 2) && (ISPEC(pitz_params[$k1]->species[0]) == -1)) || (((0 == 2) && ((pitz_params[$k1]->type == TYPE_PSI) || (pitz_params[$k1]->type == TYPE_ZETA))) && (ISPEC(pitz_params[$k1]->species[0]) == -1))), sel(store($prev1{pitz_params[]->ispec[]}, [$k1; 0] := ISPEC(pitz_params[$k1]->species[0])), [$k1; 1]), ISPEC(pitz_params[$k1]->species[1])) == -1)))), ISPEC(pitz_params[$k1]->species[2]), sel(store(store($prev1{pitz_params[]->ispec[]}, [$k1; 0] := ISPEC(pitz_params[$k1]->species[0])), [$k1; 1] := ite((((0 < 2) && (ISPEC(pitz_params[$k1]->species[0]) == -1)) || (((0 == 2) && ((pitz_params[$k1]->type == TYPE_PSI) || (pitz_params[$k1]->type == TYPE_ZETA))) && (ISPEC(pitz_params[$k1]->species[0]) == -1))), sel(store($prev1{pitz_params[]->ispec[]}, [$k1; 0] := ISPEC(pitz_params[$k1]->species[0])), [$k1; 1]), ISPEC(pitz_params[$k1]->species[1]))), [$k1; 2])))), [$k1; 0])]->z == 0), (0 + 1), 0); t13 := ite((spec[sel(fold($k1 from 0 ++ while ($k1 < size(pitz_params)); init pitz_params[]->ispec[]; step store(store(store($prev1{pitz_params[]->ispec[]}, [$k1; 0] := ISPEC(pitz_params[$k1]->species[0])), [$k1; 1] := ite((((0 < 2) && (ISPEC(pitz_params[$k1]->species[0]) == -1)) || (((0 == 2) && ((pitz_params[$k1]->type == TYPE_PSI) || (pitz_params[$k1]->type == TYPE_ZETA))) && (ISPEC(pitz_params[$k1]->species[0]) == -1))), sel(store($prev1{pitz_params[]->ispec[]}, [$k1; 0] := ISPEC(pitz_params[$k1]->species[0])), [$k1; 1]), ISPEC(pitz_params[$k1]->species[1]))), [$k1; 2] := ite((!(((0 < 2) && (ISPEC(pitz_params[$k1]->species[0]) == -1)) || (((0 == 2) && ((pitz_params[$k1]->type == TYPE_PSI) || (pitz_params[$k1]->type == TYPE_ZETA))) && (ISPEC(pitz_params[$k1]->species[0]) == -1))) && !(((1 < 2) && (ite((((0 < 2) && (ISPEC(pitz_params[$k1]->species[0]) == -1)) || (((0 == 2) && ((pitz_params[$k1]->type == TYPE_PSI) || (pitz_params[$k1]->type == TYPE_ZETA))) && (ISPEC(pitz_params[$k1]->species[0]) == -1))), sel(store($prev1{pitz_params[]->ispec[]}, [$k1; 0] := ISPEC(pitz_params[$k1]->species[0])), [$k1; 1]), ISPEC(pitz_params[$k1]->species[1])) == -1)) || (((1 == 2) && ((pitz_params[$k1]->type == TYPE_PSI) || (pitz_params[$k1]->type == TYPE_ZETA))) && (ite((((0 < 2) && (ISPEC(pitz_params[$k1]->species[0]) == -1)) || (((0 == 2) && ((pitz_params[$k1]->type == TYPE_PSI) || (pitz_params[$k1]->type == TYPE_ZETA))) && (ISPEC(pitz_params[$k1]->species[0]) == -1))), sel(store($prev1{pitz_params[]->ispec[]}, [$k1; 0] := ISPEC(pitz_params[$k1]->species[0])), [$k1; 1]), ISPEC(pitz_params[$k1]->species[1])) == -1)))), ISPEC(pitz_params[$k1]->species[2]), sel(store(store($prev1{pitz_params[]->ispec[]}, [$k1; 0] := ISPEC(pitz_params[$k1]->species[0])), [$k1; 1] := ite((((0 < 2) && (ISPEC(pitz_params[$k1]->species[0]) == -1)) || (((0 == 2) && ((pitz_params[$k1]->type == TYPE_PSI) || (pitz_params[$k1]->type == TYPE_ZETA))) && (ISPEC(pitz_params[$k1]->species[0]) == -1))), sel(store($prev1{pitz_params[]->ispec[]}, [$k1; 0] := ISPEC(pitz_params[$k1]->species[0])), [$k1; 1]), ISPEC(pitz_params[$k1]->species[1]))), [$k1; 2])))), [$k1; 1])]->z == 0), (t12 + 1), t12); t14 := (ite((spec[sel(fold($k1 from 0 ++ while ($k1 < size(pitz_params)); init pitz_params[]->ispec[]; step store(store(store($prev1{pitz_params[]->ispec[]}, [$k1; 0] := ISPEC(pitz_params[$k1]->species[0])), [$k1; 1] := ite((((0 < 2) && (ISPEC(pitz_params[$k1]->species[0]) == -1)) || (((0 == 2) && ((pitz_params[$k1]->type == TYPE_PSI) || (pitz_params[$k1]->type == TYPE_ZETA))) && (ISPEC(pitz_params[$k1]->species[0]) == -1))), sel(store($prev1{pitz_params[]->ispec[]}, [$k1; 0] := ISPEC(pitz_params[$k1]->species[0])), [$k1; 1]), ISPEC(pitz_params[$k1]->species[1]))), [$k1; 2] := ite((!(((0 < 2) && (ISPEC(pitz_params[$k1]->species[0]) == -1)) || (((0 == 2) && ((pitz_params[$k1]->type == TYPE_PSI) || (pitz_params[$k1]->type == TYPE_ZETA))) && (ISPEC(pitz_params[$k1]->species[0]) == -1))) && !(((1 < 2) && (ite((((0 < 2) && (ISPEC(pitz_params[$k1]->species[0]) == -1)) || (((0 == 2) && ((pitz_params[$k1]->type == TYPE_PSI) || (pitz_params[$k1]->type == TYPE_ZETA))) && (ISPEC(pitz_params[$k1]->species[0]) == -1))), sel(store($prev1{pitz_params[]->ispec[]}, [$k1; 0] := ISPEC(pitz_params[$k1]->species[0])), [$k1; 1]), ISPEC(pitz_params[$k1]->species[1])) == -1)) || (((1 == 2) && ((pitz_params[$k1]->type == TYPE_PSI) || (pitz_params[$k1]->type == TYPE_ZETA))) && (ite((((0 < 2) && (ISPEC(pitz_params[$k1]->species[0]) == -1)) || (((0 == 2) && ((pitz_params[$k1]->type == TYPE_PSI) || (pitz_params[$k1]->type == TYPE_ZETA))) && (ISPEC(pitz_params[$k1]->species[0]) == -1))), sel(store($prev1{pitz_params[]->ispec[]}, [$k1; 0] := ISPEC(pitz_params[$k1]->species[0])), [$k1; 1]), ISPEC(pitz_params[$k1]->species[1])) == -1)))), ISPEC(pitz_params[$k1]->species[2]), sel(store(store($prev1{pitz_params[]->ispec[]}, [$k1; 0] := ISPEC(pitz_params[$k1]->species[0])), [$k1; 1] := ite((((0 < 2) && (ISPEC(pitz_params[$k1]->species[0]) == -1)) || (((0 == 2) && ((pitz_params[$k1]->type == TYPE_PSI) || (pitz_params[$k1]->type == TYPE_ZETA))) && (ISPEC(pitz_params[$k1]->species[0]) == -1))), sel(store($prev1{pitz_params[]->ispec[]}, [$k1; 0] := ISPEC(pitz_params[$k1]->species[0])), [$k1; 1]), ISPEC(pitz_params[$k1]->species[1]))), [$k1; 2])))), [$k1; 2])]->z == 0), (t13 + 1), t13) == 3); t15 := store($prev1{pitz_params[]->os_coef}, [$k1] := 1); t16 := ite(t14, ite(((t8 == t9) && (t9 == t10)), t15, ite(t11, store($prev1{pitz_params[]->os_coef}, [$k1] := 3), store($prev1{pitz_params[]->os_coef}, [$k1] := 6))), $prev1{pitz_params[]->os_coef}); t17 := sel(t16, [$k1]); fold($k1 from 0 ++ while ($k1 < size(pitz_params)); init fold($k1 from 0 ++ while ($k1 < size(pitz_params)); init pitz_params[]->os_coef; step ite((pitz_params[$k1]->type == TYPE_MU), ite(t11, store(t16, [$k1] := ite(t14, t17, 3)), store(t16, [$k1] := ite(t14, t17, 6))), $prev1{pitz_params[]->os_coef})); step ite((pitz_params[$k1]->type == TYPE_LAMBDA), ite((t8 == t9), store($prev1{pitz_params[]->os_coef}, [$k1] := 0.5), t15), $prev1{pitz_params[]->os_coef}))")
 ] := rfl
 
 /-- `read_species` — `Gamma.defaultAssign`, `applyOpt` (gflag / dha / dhb per option index, with the option table) -/
@@ -1091,4 +1057,521 @@ example : letI := dualOps exF
     (by intro pq h; simp [exPs] at h; rcases h with rfl | rfl <;> norm_num [IRel, exB1, exEth])
     (by norm_num [rsum]) (by intro _; norm_num [rsum]) (by simp [exF]) (by simp [exF]) (by norm_num [exF])
 
+end PhreeqcVerif.Pitzer
+
+/-! # generated definitions = hand models
+
+`tools/gen_pitzer.py` turns the operator tree of each stored quantity of the source into a definition over `[NumOps α]`
+(`Gen/GammaSrc.lean`, regenerated on every run).  The theorems below prove those definitions equal to the hand models the
+other theorems of this file are about, so that those theorems are statements about what the source computes. -/
+namespace PhreeqcVerif.C16Gen
+open Lean Elab Tactic Meta in
+/-- close `a = b` with `Eq.refl a` and leave the definitional-equality check to the kernel (whose conversion checker
+shares work on terms with many repeated sub-terms, where the elaborator's unifier does not) -/
+elab "kernel_rfl" : tactic => do
+  let g ← getMainGoal
+  let t ← instantiateMVars (← g.getType)
+  let some (_, a, _) := t.eq? | throwError "kernel_rfl: goal is not an equality"
+  g.assign (← mkEqRefl a)
+
+open PhreeqcVerif PhreeqcVerif.Gen.GammaSrc PhreeqcVerif.Pitzer NumOps
+
+variable {α : Type} [NumOps α] [∀ a b : α, Decidable (a < b)] [∀ a b : α, Decidable (a ≤ b)]
+
+/-! ## `gammas()`: the generated trees are the branches of `Gamma.lgOf` -/
+
+theorem lg0_src (dhb mu old : α) : lg_gflag0 true dhb mu old = Gamma.uncharged (Gamma.clampMu mu) dhb := rfl
+theorem lg1_src (z a mu old : α) : lg_gflag1 true z a mu old = Gamma.davies a (Gamma.clampMu mu) z := rfl
+theorem lg2_src (a mu z dha b dhb old : α) :
+    lg_gflag2 true a mu z dha b dhb old = Gamma.wateq a b (Gamma.clampMu mu) z dha dhb := rfl
+theorem lg3_src (old : α) : lg_gflag3 true old = lit 0 := rfl
+theorem lg5_src (old : α) : lg_gflag5 true old = lit 0 := rfl
+theorem lg7_src (z old aL mu dha bL bd : α) :
+    lg_gflag7 true z true old aL mu dha bL bd = Gamma.bdot aL bL bd (Gamma.clampMu mu) z dha := rfl
+theorem lg8_src (c0 c1 tk c2 mu c3 c4 old : α) :
+    lg_gflag8 true true c0 c1 tk c2 mu c3 c4 (ln (lit 10)) old = Gamma.co2Poly c0 c1 c2 c3 c4 tk (Gamma.clampMu mu) := rfl
+theorem lg9_src (la gfw old : α) : lg_gflag9 true la (ln (lit 10)) gfw old = Gamma.actWater la gfw := rfl
+
+/-- a guard that does not hold (Pitzer / SIT model active: `gammas` returns before the loop) leaves the old value -/
+theorem lg_src_dead (z a mu old : α) : lg_gflag1 false z a mu old = old := rfl
+
+/-- **`lgOf` is what the source computes**: for every aqueous branch the value of `Gamma.lgOf` at the clamped ionic
+strength is the generated tree of that `gflag` case (LLNL parameters present, `LOG_10 = ln 10`) -/
+theorem lgOf_src (e : Gamma.Env α) (mu z dha dhb old : α) (hmu : e.mu = Gamma.clampMu mu) (hl : e.hasLlnl = true) :
+    Gamma.lgOf e .uncharged z dha dhb = some (lg_gflag0 true dhb mu old) ∧
+    Gamma.lgOf e .davies z dha dhb = some (lg_gflag1 true z e.a mu old) ∧
+    Gamma.lgOf e .wateq z dha dhb = some (lg_gflag2 true e.a mu z dha e.b dhb old) ∧
+    Gamma.lgOf e .unity z dha dhb = some (lg_gflag3 true old) ∧
+    Gamma.lgOf e .unity5 z dha dhb = some (lg_gflag5 true old) ∧
+    Gamma.lgOf e .llnl z dha dhb = some (lg_gflag7 true z true old e.aL mu dha e.bL e.bdotL) ∧
+    Gamma.lgOf e .actWater z dha dhb = some (lg_gflag9 true e.laH2O (ln (lit 10)) e.gfwWater old) := by
+  simp only [Gamma.lgOf, hmu, hl, if_true]
+  exact ⟨rfl, rfl, rfl, rfl, rfl, rfl, rfl⟩
+
+/-- the interpolated LLNL constants: `(1 − f)·v[ifirst] + f·v[ilast]` with the weight of `Gamma.weight` -/
+theorem llnl_blend_src (ts vs : List α) (tc old : α) (i j : Nat) :
+    a_llnl_src true true (decide (j = i)) tc (ts.getD i (lit 0)) (ts.getD j (lit 0)) (vs.getD i (lit 0)) (vs.getD j (lit 0)) old
+      = Gamma.blend (Gamma.weight ts tc i j) vs i j ∧
+    b_llnl_src true true (decide (j = i)) tc (ts.getD i (lit 0)) (ts.getD j (lit 0)) (vs.getD i (lit 0)) (vs.getD j (lit 0)) old
+      = Gamma.blend (Gamma.weight ts tc i j) vs i j ∧
+    bdot_llnl_src true true (decide (j = i)) tc (ts.getD i (lit 0)) (ts.getD j (lit 0)) (vs.getD i (lit 0)) (vs.getD j (lit 0)) old
+      = Gamma.blend (Gamma.weight ts tc i j) vs i j := by
+  by_cases h : j = i <;> simp [a_llnl_src, b_llnl_src, bdot_llnl_src, Gamma.blend, Gamma.weight, h]
+
+/-! ## `G`, `GP`, `calc_pitz_param`, `calc_sit_param` -/
+
+theorem g_src_eq (y : α) : g_src y = Pitzer.G y := rfl
+theorem gp_src_eq (y : α) : gp_src y = Pitzer.GP y := rfl
+theorem calc_param_src_eq (a0 a1 a2 a3 a4 a5 tk : α) :
+    calc_param_src tk (lit (29815 / 100)) a0 a1 a2 a3 a4 a5 = Pitzer.calcParam a0 a1 a2 a3 a4 a5 tk := rfl
+theorem calc_sit_param_src_eq (a0 a1 a2 a3 a4 tk : α) :
+    calc_sit_param_src tk (lit (29815 / 100)) a0 a1 a2 a3 a4 = Pitzer.calcSitParam a0 a1 a2 a3 a4 tk := rfl
+
+
+/-! ## `pitzer()`: per parameter type, the additions the source makes are the ones of the model
+
+`P t` is a model parameter of type `t` whose ionic-strength functions are the ones the source evaluates in place:
+`g = G(α√I)`, `g′ = GP(α√I)`, `exp(−α√I)`, and whose `c0den` is `2·sqrt|z0 z1|`. -/
+
+/-- the model parameter the source's quantities of one loop iteration denote -/
+def srcParam (t : PType) (i0 i1 i2 : Nat) (p alpha l0 l1 l2 os et etp mu : α) (z : Nat → α) : PParam α :=
+  { type := t, i0 := i0, i1 := i1, i2 := i2, p := p, c0den := lit 2 * sqrt (absv (z i0 * z i1)),
+    ln0 := l0, ln1 := l1, ln2 := l2, os := os, g := G (alpha * sqrt mu), gp := GP (alpha * sqrt mu),
+    ex := exp ((-alpha) * sqrt mu), etheta := et, ethetap := etp }
+
+section
+variable (i0 i1 i2 : Nat) (p alpha l0 l1 l2 os et etp mu bigZ : α) (z m : Nat → α) (present : Nat → Bool) (ue : Bool)
+
+local notation "P" t => srcParam t i0 i1 i2 p alpha l0 l1 l2 os et etp mu z
+
+theorem pz_b0_src :
+    lnTermsConst (P .b0) m bigZ present = pz_ln_b0 i0 (m i1) p i1 (m i0) ∧ lnTermsI (P .b0) m ue = [] ∧
+    osConst (P .b0) m bigZ present = pz_os_b0 (m i0) (m i1) p ∧ osI (P .b0) m mu ue = lit 0 ∧
+    csumOf (P .b0) m = pz_csum_b0 ∧ fVar (P .b0) m mu ue = pz_fvar_b0 := ⟨rfl, rfl, rfl, rfl, rfl, rfl⟩
+
+theorem pz_b1_src :
+    lnTermsConst (P .b1) m bigZ present = [] ∧ lnTermsI (P .b1) m ue = pz_ln_b1 p i0 (m i1) alpha mu i1 (m i0) ∧
+    osConst (P .b1) m bigZ present = lit 0 ∧ osI (P .b1) m mu ue = pz_os_b1 (m i0) (m i1) p alpha mu ∧
+    csumOf (P .b1) m = pz_csum_b1 ∧ fVar (P .b1) m mu ue = pz_fvar_b1 p (m i0) (m i1) alpha mu := ⟨rfl, rfl, rfl, rfl, rfl, rfl⟩
+
+theorem pz_b2_src :
+    lnTermsConst (P .b2) m bigZ present = [] ∧ lnTermsI (P .b2) m ue = pz_ln_b2 p i0 (m i1) alpha mu i1 (m i0) ∧
+    osConst (P .b2) m bigZ present = lit 0 ∧ osI (P .b2) m mu ue = pz_os_b2 (m i0) (m i1) p alpha mu ∧
+    csumOf (P .b2) m = pz_csum_b2 ∧ fVar (P .b2) m mu ue = pz_fvar_b2 p (m i0) (m i1) alpha mu := ⟨rfl, rfl, rfl, rfl, rfl, rfl⟩
+
+theorem pz_c0_src :
+    lnTermsConst (P .c0) m bigZ present = pz_ln_c0 i0 (m i1) bigZ p (z i0) (z i1) i1 (m i0) ∧ lnTermsI (P .c0) m ue = [] ∧
+    osConst (P .c0) m bigZ present = pz_os_c0 (m i0) (m i1) bigZ p (z i0) (z i1) ∧ osI (P .c0) m mu ue = lit 0 ∧
+    csumOf (P .c0) m = pz_csum_c0 (m i0) (m i1) p (z i0) (z i1) ∧ fVar (P .c0) m mu ue = pz_fvar_c0 :=
+  ⟨rfl, rfl, rfl, rfl, rfl, rfl⟩
+
+theorem pz_theta_src :
+    lnTermsConst (P .theta) m bigZ present = pz_ln_theta i0 (m i1) p i1 (m i0) ∧ lnTermsI (P .theta) m ue = [] ∧
+    osConst (P .theta) m bigZ present = pz_os_theta (m i0) (m i1) p ∧ osI (P .theta) m mu ue = lit 0 ∧
+    csumOf (P .theta) m = pz_csum_theta ∧ fVar (P .theta) m mu ue = pz_fvar_theta := ⟨rfl, rfl, rfl, rfl, rfl, rfl⟩
+
+theorem pz_lambda_src :
+    lnTermsConst (P .lambda) m bigZ present = pz_ln_lambda i0 (m i1) p l0 i1 (m i0) l1 ∧ lnTermsI (P .lambda) m ue = [] ∧
+    osConst (P .lambda) m bigZ present = pz_os_lambda (m i0) (m i1) p os ∧ osI (P .lambda) m mu ue = lit 0 ∧
+    csumOf (P .lambda) m = pz_csum_lambda ∧ fVar (P .lambda) m mu ue = pz_fvar_lambda := ⟨rfl, rfl, rfl, rfl, rfl, rfl⟩
+
+theorem pz_etheta_src :
+    lnTermsConst (P .etheta) m bigZ present = [] ∧ lnTermsI (P .etheta) m ue = pz_ln_etheta ue i0 (m i1) et i1 (m i0) ∧
+    osConst (P .etheta) m bigZ present = lit 0 ∧ osI (P .etheta) m mu ue = pz_os_etheta (m i0) (m i1) et mu etp ue ∧
+    csumOf (P .etheta) m = pz_csum_etheta ∧ fVar (P .etheta) m mu ue = pz_fvar_etheta ue (m i0) (m i1) etp := by
+  refine ⟨rfl, ?_, rfl, ?_, rfl, ?_⟩ <;> cases ue <;> rfl
+
+/-- ψ, ζ, η: the source skips the parameter when the third species is absent (`IPRSNT[i2] == FALSE`) -/
+theorem pz_psi_zeta_eta_src :
+    lnTermsConst (P .psi) m bigZ present = pz_ln_psi (!present i2) i0 (m i1) (m i2) p i1 (m i0) i2 ∧
+    lnTermsConst (P .zeta) m bigZ present = pz_ln_zeta (!present i2) i0 (m i1) (m i2) p i1 (m i0) i2 ∧
+    lnTermsConst (P .eta) m bigZ present = pz_ln_eta (!present i2) i0 (m i1) (m i2) p i1 (m i0) i2 ∧
+    osConst (P .psi) m bigZ present = pz_os_psi (m i0) (m i1) (m i2) p (!present i2) ∧
+    osConst (P .zeta) m bigZ present = pz_os_zeta (m i0) (m i1) (m i2) p (!present i2) ∧
+    osConst (P .eta) m bigZ present = pz_os_eta (m i0) (m i1) (m i2) p (!present i2) ∧
+    lnTermsI (P .psi) m ue = [] ∧ lnTermsI (P .zeta) m ue = [] ∧ lnTermsI (P .eta) m ue = [] ∧
+    osI (P .psi) m mu ue = lit 0 ∧ osI (P .zeta) m mu ue = lit 0 ∧ osI (P .eta) m mu ue = lit 0 ∧
+    csumOf (P .psi) m = pz_csum_psi ∧ csumOf (P .zeta) m = pz_csum_zeta ∧ csumOf (P .eta) m = pz_csum_eta := by
+  refine ⟨?_, ?_, ?_, ?_, ?_, ?_, rfl, rfl, rfl, rfl, rfl, rfl, rfl, rfl, rfl⟩ <;> cases hp : present i2 <;>
+    simp [lnTermsConst, osConst, srcParam, pz_ln_psi, pz_ln_zeta, pz_ln_eta, pz_os_psi, pz_os_zeta, pz_os_eta, hp]
+
+theorem pz_mu_src :
+    lnTermsConst (P .mu) m bigZ present = pz_ln_mu (!present i2) i0 (m i1) (m i2) p l0 i1 (m i0) l1 i2 l2 ∧
+    osConst (P .mu) m bigZ present = pz_os_mu (m i0) (m i1) (m i2) p os (!present i2) ∧
+    lnTermsI (P .mu) m ue = [] ∧ osI (P .mu) m mu ue = lit 0 ∧ csumOf (P .mu) m = pz_csum_mu := by
+  refine ⟨?_, ?_, rfl, rfl, rfl⟩ <;> cases hp : present i2 <;>
+    simp [lnTermsConst, osConst, srcParam, pz_ln_mu, pz_os_mu, hp]
+
+end
+
+/-! ## Debye–Hückel start values, `COSMOT`, `AW` -/
+
+theorem pz_f_init0_src (a0 mu : α) : pz_f_init0 a0 mu = fDH a0 (sqrt mu) (lit (12 / 10)) := rfl
+
+theorem ite_not_swap {β : Type} (c : Bool) (x y : β) : (if c = true then x else y) = (if (true && !c) = true then y else x) := by
+  cases c <;> rfl
+
+/-- `F1`, `F2` under pressure: the start values are the Debye–Hückel function with the `B1`, `B2` of `pcorrOf` -/
+theorem pz_f_init12_src (patm tk a0 mu : α) :
+    pz_f_init1 patm tk a0 mu
+      = (if ((pcorrOf tk patm).active && !isZero (pcorrOf tk patm).b1) = true then fDH a0 (sqrt mu) (pcorrOf tk patm).b1
+         else fDH a0 (sqrt mu) (lit (12 / 10))) ∧
+    pz_f_init2 patm tk a0 mu
+      = (if ((pcorrOf tk patm).active && !isZero (pcorrOf tk patm).b2) = true then fDH a0 (sqrt mu) (pcorrOf tk patm).b2
+         else fDH a0 (sqrt mu) (lit (12 / 10))) := by
+  constructor
+  · unfold pz_f_init1 pcorrOf
+    by_cases h : lit 1 < patm
+    · simp only [h, if_true]
+      exact ite_not_swap _ _ _
+    · simp only [h, if_false]; rfl
+  · unfold pz_f_init2 pcorrOf
+    by_cases h : lit 1 < patm
+    · simp only [h, if_true]
+      exact ite_not_swap _ _ _
+    · simp only [h, if_false]; rfl
+
+theorem pz_osmot_init_src (a0 mu : α) : pz_osmot_init a0 mu = osmot0 a0 mu (sqrt mu) := rfl
+
+/-- `COSMOT` and `AW` of the source are the ones of the model, in terms of the accumulated `OSMOT` and `OSUM` -/
+theorem pz_cosmot_aw_src (x : PzIn α) (pc : PCorr α) :
+    (pitzerP x pc).cosmot = pz_cosmot (pitzerP x pc).osmot (pitzerP x pc).osum ∧
+    (pitzerP x pc).aw = pz_aw (pitzerP x pc).osum (pitzerP x pc).osmot := ⟨rfl, rfl⟩
+
+/-! ## `sit()` -/
+
+theorem sit_eps_src (x : SitIn α) (i0 i1 : Nat) (p acc : α) :
+    sitTerms x ⟨false, i0, i1, p⟩ = sit_ln_eps i0 (x.m i1) p i1 (x.m i0) ∧
+    sitTerms x ⟨true, i0, i1, p⟩ = sit_ln_eps1 i0 (x.m i1) x.mu p i1 (x.m i0) ∧
+    sitOs x ⟨false, i0, i1, p⟩ acc = sit_os_eps (x.z i0) (x.z i1) acc (x.m i0) (x.m i1) p ∧
+    sitOs x ⟨true, i0, i1, p⟩ acc = sit_os_eps1 (x.z i0) (x.z i1) acc (x.m i0) (x.m i1) p x.mu := by
+  refine ⟨rfl, rfl, ?_, ?_⟩ <;>
+    (cases h0 : isZero (x.z i0) <;> cases h1 : isZero (x.z i1) <;> simp [sitOs, sit_os_eps, sit_os_eps1, h0, h1])
+
+theorem sit_scalars_src (y : SitIn α) (k : Nat) :
+    sit_osmot_init y.a0 (ln (lit 10)) y.mu
+      = (-(lit 2)) * (lit 3 * y.a0 / ln (lit 10)) / (lit (15 / 10) * lit (15 / 10) * lit (15 / 10))
+          * ((lit 1 + lit (15 / 10) * sqrt y.mu) - lit 2 * ln (lit 1 + lit (15 / 10) * sqrt y.mu) - lit 1 / (lit 1 + lit (15 / 10) * sqrt y.mu)) ∧
+    (sit y).cosmot = sit_cosmot (sit y).osmot (ln (lit 10)) (sit y).osum ∧
+    (sit y).aw = sit_aw (sit y).osum (sit y).osmot (ln (lit 10)) := ⟨rfl, rfl, rfl⟩
+
+
+/-! ## `ETHETAS`, `ETHETA_PARAMS` -/
+
+theorem etheta_src_eq (zj zk jjk jjj jkk i : α) : etheta_src zj zk jjk jjj jkk i = ethetaOf zj zk i jjk jjj jkk := rfl
+theorem ethetap_src_eq (zj zk pjk pjj pkk i jjk jjj jkk : α) :
+    ethetap_src zj zk pjk pjj pkk i jjk jjj jkk = ethetapOf zj zk i jjk jjj jkk pjk pjj pkk := rfl
+
+/-- the unrolled Clenshaw evaluation of the source (both coefficient tables, `L_Z`, the 19 steps) is `Pitzer.jay` -/
+theorem jay_src_eq (x : α) : jay_src x = jay x := by kernel_rfl
+theorem jprime_src_eq (x dk20 : α) : jprime_src x dk20 = jprime x dk20 := by kernel_rfl
+
+
+end PhreeqcVerif.C16Gen
+
+namespace PhreeqcVerif.Pitzer
+open NumOps
+
+/-! ## `JPRIME` is `X · dJAY/dX` -/
+
+section cheb
+variable (f : TransFns Rat)
+
+@[simp] theorem d_exp_re (x : Dual) : (@NumOps.exp Dual (dualOps f) x).re = f.exp x.re := rfl
+@[simp] theorem d_exp_eps (x : Dual) : (@NumOps.exp Dual (dualOps f) x).eps = f.exp x.re * x.eps := rfl
+
+/-- invariant of the recurrence run on `z + e·ε` with constant coefficients: the real parts follow the run on `z`, and
+the first-order parts of `BK` are `e` times the `DK` of the run on `z` -/
+def CInv (e : Rat) (sD : CS Dual) (s : CS Rat) : Prop :=
+  sD.b0.re = s.b0 ∧ sD.b1.re = s.b1 ∧ sD.b2.re = s.b2 ∧
+  sD.b0.eps = e * s.d0 ∧ sD.b1.eps = e * s.d1 ∧ sD.b2.eps = e * s.d2
+
+theorem csStep_inv (z e a : Rat) (sD : CS Dual) (s : CS Rat) (h : CInv e sD s) :
+    letI := dualOps f
+    CInv e (csStep (Dual.mk z e) (Dual.const a) sD) (@csStep Rat (ratOps f) z a s) := by
+  obtain ⟨h0, h1, h2, e0, e1, e2⟩ := h
+  refine ⟨?_, h0, h1, ?_, e0, e1⟩
+  · simp [csStep, h0, h1]
+  · simp [csStep, h0, h1, e0, e1]; ring
+
+theorem foldl_inv (z e : Rat) (c : Nat → Rat) (idx : List Nat) (sD : CS Dual) (s : CS Rat) (h : CInv e sD s) :
+    letI := dualOps f
+    CInv e (idx.foldl (fun s i => csStep (Dual.mk z e) (Dual.const (c i)) s) sD)
+      (idx.foldl (fun s i => @csStep Rat (ratOps f) z (c i) s) s) := by
+  induction idx generalizing sD s with
+  | nil => simpa using h
+  | cons i idx ih => exact ih _ _ (csStep_inv f z e (c i) sD s h)
+
+/-- **the Clenshaw recurrences of `ETHETA_PARAMS`**: run on `z + e·ε` with constant coefficients, `BK[0] − BK[2]` has
+first-order part `e · (DK[0] − DK[2])`, where `DK` is the recurrence the code runs next to `BK` — provided the never
+assigned `DK[20]` is 0 -/
+theorem csRun_deriv (z e : Rat) (c : Nat → Rat) :
+    letI := dualOps f
+    ((csRun (Dual.mk z e) (fun i => Dual.const (c i)) (Dual.const 0)).b0
+        - (csRun (Dual.mk z e) (fun i => Dual.const (c i)) (Dual.const 0)).b2).eps
+      = e * ((@csRun Rat (ratOps f) z c 0).d0 - (@csRun Rat (ratOps f) z c 0).d2) := by
+  have hinit : CInv e (@csInit Dual (dualOps f) (Dual.mk z e) (Dual.const (c 20)) (Dual.const (c 19)) (Dual.const 0))
+      (@csInit Rat (ratOps f) z (c 20) (c 19) 0) := by
+    refine ⟨?_, rfl, rfl, ?_, ?_, ?_⟩ <;> simp [csInit]
+  have h := foldl_inv f z e c [18, 17, 16, 15, 14, 13, 12, 11, 10, 9, 8, 7, 6, 5, 4, 3, 2, 1, 0] _ _ hinit
+  obtain ⟨_, _, _, e0, _, e2⟩ := h
+  simp only [csRun, d_sub_eps]
+  rw [e0, e2]; ring
+
+theorem dual_ext {a b : Dual} (h1 : a.re = b.re) (h2 : a.eps = b.eps) : a = b := by
+  cases a; cases b; simp_all
+
+theorem ak_dual : (@akLow Dual (dualOps f)) = (@akLow Rat (ratOps f)).map Dual.const ∧
+    (@akHigh Dual (dualOps f)) = (@akHigh Rat (ratOps f)).map Dual.const := by
+  have hneg : ∀ q : Rat, -(Dual.const q) = Dual.const (-q) := fun q => dual_ext rfl (by simp)
+  have hlit : ∀ q : Rat, @NumOps.lit Dual (dualOps f) q = Dual.const q := fun _ => rfl
+  constructor
+  · simp only [akLow, hlit, hneg, rat_lit, List.map_cons, List.map_nil]
+  · simp only [akHigh, hlit, hneg, rat_lit, List.map_cons, List.map_nil]
+
+theorem getD_map_const (l : List Rat) (i : Nat) :
+    (l.map Dual.const).getD i (Dual.const 0) = Dual.const (l.getD i 0) := by
+  simp only [List.getD_eq_getElem?_getD, List.getElem?_map]
+  cases l[i]? <;> rfl
+
+theorem akCoef_dual (X e : Rat) (i : Nat) :
+    @akCoef Dual (dualOps f) _ (Dual.mk X e) i = Dual.const (@akCoef Rat (ratOps f) _ X i) := by
+  have hlit0 : (@NumOps.lit Dual (dualOps f) 0) = Dual.const 0 := rfl
+  unfold akCoef
+  by_cases h : X ≤ 1
+  · have hD : (Dual.mk X e) ≤ (@NumOps.lit Dual (dualOps f) 1) := h
+    have hR : X ≤ (@NumOps.lit Rat (ratOps f) 1) := h
+    rw [if_pos hD, if_pos hR, (ak_dual f).1, hlit0]
+    exact getD_map_const _ _
+  · have hD : ¬ ((Dual.mk X e) ≤ (@NumOps.lit Dual (dualOps f) 1)) := h
+    have hR : ¬ (X ≤ (@NumOps.lit Rat (ratOps f) 1)) := h
+    rw [if_neg hD, if_neg hR, (ak_dual f).2, hlit0]
+    exact getD_map_const _ _
+
+/-- **`JPRIME` is `X · dJAY/dX`**: for the series as coded (both coefficient tables, both changes of variable), with the
+derivative rules of `exp` and `ln` (the code's `pow(X, a)` is `exp(a ln X)`) and `DK[20] = 0`:
+`jprime X 0 = X · ε(jay (X + ε))`.  This is the relation `IRel`'s `d(ᴱθ) = ᴱθ′ dI` rests on. -/
+theorem jprime_is_x_times_djay (X : Rat) (hX : X ≠ 0) :
+    @jprime Rat (ratOps f) _ X 0 = X * (@jay Dual (dualOps f) _ (Dual.mk X 1)).eps := by
+  let _i : NumOps Dual := dualOps f
+  let _r : NumOps Rat := ratOps f
+  have hco : (fun i => @akCoef Dual (dualOps f) _ (Dual.mk X 1) i) = fun i => Dual.const (@akCoef Rat (ratOps f) _ X i) := by
+    funext i; exact akCoef_dual f X 1 i
+  have hz : ∃ e, @lzOf Dual (dualOps f) _ (Dual.mk X 1) = Dual.mk (@lzOf Rat (ratOps f) _ X) e ∧
+      @ldzOf Rat (ratOps f) _ X = X * (5 / 10) * e := by
+    by_cases h : X ≤ 1
+    · have hD : (Dual.mk X 1) ≤ (@NumOps.lit Dual (dualOps f) 1) := h
+      have hR : X ≤ (@NumOps.lit Rat (ratOps f) 1) := h
+      refine ⟨4 * (f.exp (2 / 10 * f.ln X) * (2 / 10 * (1 / X))), ?_, ?_⟩
+      · unfold lzOf; rw [if_pos hD, if_pos hR]
+        apply dual_ext <;> simp [powf]
+      · unfold ldzOf; rw [if_pos hR]; simp [powf]; field_simp; ring
+    · have hD : ¬ ((Dual.mk X 1) ≤ (@NumOps.lit Dual (dualOps f) 1)) := h
+      have hR : ¬ (X ≤ (@NumOps.lit Rat (ratOps f) 1)) := h
+      refine ⟨40 * (f.exp (-(1 / 10) * f.ln X) * (-(1 / 10) * (1 / X))) / 9, ?_, ?_⟩
+      · unfold lzOf; rw [if_neg hD, if_neg hR]
+        apply dual_ext <;> simp [powf] <;> ring
+      · unfold ldzOf; rw [if_neg hR]; simp [powf]; field_simp; ring
+  obtain ⟨e, hz1, hz2⟩ := hz
+  have hlit0 : (@NumOps.lit Dual (dualOps f) 0) = Dual.const 0 := rfl
+  have hd := csRun_deriv f (@lzOf Rat (ratOps f) _ X) e (fun i => @akCoef Rat (ratOps f) _ X i)
+  unfold jay jprime
+  simp only [hz1, hlit0]
+  rw [show (@akCoef Dual (dualOps f) _ (Dual.mk X 1)) = fun i => Dual.const (@akCoef Rat (ratOps f) _ X i) from hco]
+  simp only [d_add_eps, d_sub_eps, d_mul_eps, d_div_eps, d_lit_re, d_lit_eps, d_mk_re, d_mk_eps, hd, hz2, rat_lit]
+  field_simp
+  ring
+
+end cheb
+
+end PhreeqcVerif.Pitzer
+
+namespace PhreeqcVerif.Pitzer
+open NumOps
+
+section cheb2
+variable (f : TransFns Rat)
+
+/-- chain-rule form: along any variation `d` of `X`, `X · ε(jay (X + d ε)) = d · jprime X 0` -/
+theorem jay_eps (X d : Rat) (hX : X ≠ 0) :
+    X * (@jay Dual (dualOps f) _ (Dual.mk X d)).eps = d * @jprime Rat (ratOps f) _ X 0 := by
+  let _i : NumOps Dual := dualOps f
+  let _r : NumOps Rat := ratOps f
+  have hco : (@akCoef Dual (dualOps f) _ (Dual.mk X d)) = fun i => Dual.const (@akCoef Rat (ratOps f) _ X i) := by
+    funext i; exact akCoef_dual f X d i
+  have hz : ∃ e, @lzOf Dual (dualOps f) _ (Dual.mk X d) = Dual.mk (@lzOf Rat (ratOps f) _ X) e ∧
+      d * @ldzOf Rat (ratOps f) _ X = X * (5 / 10) * e := by
+    by_cases h : X ≤ 1
+    · have hD : (Dual.mk X d) ≤ (@NumOps.lit Dual (dualOps f) 1) := h
+      have hR : X ≤ (@NumOps.lit Rat (ratOps f) 1) := h
+      refine ⟨4 * (f.exp (2 / 10 * f.ln X) * (2 / 10 * (d / X))), ?_, ?_⟩
+      · unfold lzOf; rw [if_pos hD, if_pos hR]
+        apply dual_ext <;> simp [powf]
+      · unfold ldzOf; rw [if_pos hR]; simp [powf]; field_simp; ring
+    · have hD : ¬ ((Dual.mk X d) ≤ (@NumOps.lit Dual (dualOps f) 1)) := h
+      have hR : ¬ (X ≤ (@NumOps.lit Rat (ratOps f) 1)) := h
+      refine ⟨40 * (f.exp (-(1 / 10) * f.ln X) * (-(1 / 10) * (d / X))) / 9, ?_, ?_⟩
+      · unfold lzOf; rw [if_neg hD, if_neg hR]
+        apply dual_ext <;> simp [powf] <;> ring
+      · unfold ldzOf; rw [if_neg hR]; simp [powf]; field_simp; ring
+  obtain ⟨e, hz1, hz2⟩ := hz
+  have hlit0 : (@NumOps.lit Dual (dualOps f) 0) = Dual.const 0 := rfl
+  have hd := csRun_deriv f (@lzOf Rat (ratOps f) _ X) e (fun i => @akCoef Rat (ratOps f) _ X i)
+  unfold jay jprime
+  simp only [hz1, hlit0, hco]
+  simp only [d_add_eps, d_sub_eps, d_mul_eps, d_div_eps, d_lit_re, d_lit_eps, d_mk_re, d_mk_eps, hd, rat_lit]
+  have : d * (X * (25 / 100) + @ldzOf Rat (ratOps f) _ X *
+      ((@csRun Rat (ratOps f) (@lzOf Rat (ratOps f) _ X) (fun i => @akCoef Rat (ratOps f) _ X i) 0).d0 -
+        (@csRun Rat (ratOps f) (@lzOf Rat (ratOps f) _ X) (fun i => @akCoef Rat (ratOps f) _ X i) 0).d2))
+      = d * X * (25 / 100) + (d * @ldzOf Rat (ratOps f) _ X) *
+      ((@csRun Rat (ratOps f) (@lzOf Rat (ratOps f) _ X) (fun i => @akCoef Rat (ratOps f) _ X i) 0).d0 -
+        (@csRun Rat (ratOps f) (@lzOf Rat (ratOps f) _ X) (fun i => @akCoef Rat (ratOps f) _ X i) 0).d2) := by ring
+  rw [this, hz2]
+  field_simp
+  ring
+
+theorem jay_re (X d : Rat) : (@jay Dual (dualOps f) _ (Dual.mk X d)).re = @jay Rat (ratOps f) _ X := by
+  let _i : NumOps Dual := dualOps f
+  let _r : NumOps Rat := ratOps f
+  have hco : (@akCoef Dual (dualOps f) _ (Dual.mk X d)) = fun i => Dual.const (@akCoef Rat (ratOps f) _ X i) := by
+    funext i; exact akCoef_dual f X d i
+  have hz : (@lzOf Dual (dualOps f) _ (Dual.mk X d)).re = @lzOf Rat (ratOps f) _ X := by
+    by_cases h : X ≤ 1
+    · have hD : (Dual.mk X d) ≤ (@NumOps.lit Dual (dualOps f) 1) := h
+      have hR : X ≤ (@NumOps.lit Rat (ratOps f) 1) := h
+      unfold lzOf; rw [if_pos hD, if_pos hR]; simp [powf]
+    · have hD : ¬ ((Dual.mk X d) ≤ (@NumOps.lit Dual (dualOps f) 1)) := h
+      have hR : ¬ (X ≤ (@NumOps.lit Rat (ratOps f) 1)) := h
+      unfold lzOf; rw [if_neg hD, if_neg hR]; simp [powf]
+  have hzD : @lzOf Dual (dualOps f) _ (Dual.mk X d) = Dual.mk (@lzOf Rat (ratOps f) _ X) (@lzOf Dual (dualOps f) _ (Dual.mk X d)).eps :=
+    dual_ext hz rfl
+  have hlit0 : (@NumOps.lit Dual (dualOps f) 0) = Dual.const 0 := rfl
+  set e := (@lzOf Dual (dualOps f) _ (Dual.mk X d)).eps
+  have hinit : CInv e (@csInit Dual (dualOps f) (Dual.mk (@lzOf Rat (ratOps f) _ X) e) (Dual.const (@akCoef Rat (ratOps f) _ X 20))
+      (Dual.const (@akCoef Rat (ratOps f) _ X 19)) (Dual.const 0))
+      (@csInit Rat (ratOps f) (@lzOf Rat (ratOps f) _ X) (@akCoef Rat (ratOps f) _ X 20) (@akCoef Rat (ratOps f) _ X 19) 0) := by
+    refine ⟨?_, rfl, rfl, ?_, ?_, ?_⟩ <;> simp [csInit]
+  have h := foldl_inv f (@lzOf Rat (ratOps f) _ X) e (fun i => @akCoef Rat (ratOps f) _ X i)
+    [18, 17, 16, 15, 14, 13, 12, 11, 10, 9, 8, 7, 6, 5, 4, 3, 2, 1, 0] _ _ hinit
+  obtain ⟨r0, _, r2, _, _, _⟩ := h
+  unfold jay
+  rw [hzD, hlit0, hco]
+  simp only [csRun, d_add_re, d_sub_re, d_mul_re, d_div_re, d_lit_re, d_mk_re, rat_lit, r0, r2]
+
+/-- **`ethetap` is the derivative of `etheta` with respect to the ionic strength**, for the source's `ETHETAS` on top of the
+source's `ETHETA_PARAMS`: evaluated on `I + dI ε` (with `√I·√I = I`, the derivative rules of `sqrt`, `exp`, `ln`, and
+`DK[20] = 0`), the first-order part of `etheta` is `dI` times the `ethetap` the code computes.  This is the hypothesis
+`IRel … dE = ethetap · dI` of `pitzer_gibbs_duhem`, derived from the code instead of assumed. -/
+theorem etheta_derivative (zj zk a0 I dI : Rat) (hs : f.sqrt I * f.sqrt I = I) (hs0 : f.sqrt I ≠ 0) (ha : a0 ≠ 0)
+    (hzj : zj ≠ 0) (hzk : zk ≠ 0) :
+    letI := dualOps f
+    let xcon : Dual := (lit 6 * Dual.const a0) * sqrt (Dual.mk I dI)
+    let x : Rat := 6 * a0 * f.sqrt I
+    (ethetaOf (Dual.const zj) (Dual.const zk) (Dual.mk I dI) (jay (xcon * (Dual.const zj * Dual.const zk)))
+        (jay ((xcon * Dual.const zj) * Dual.const zj)) (jay ((xcon * Dual.const zk) * Dual.const zk))).eps
+      = dI * @ethetapOf Rat (ratOps f) _ zj zk I (@jay Rat (ratOps f) _ (x * (zj * zk))) (@jay Rat (ratOps f) _ ((x * zj) * zj))
+          (@jay Rat (ratOps f) _ ((x * zk) * zk)) (@jprime Rat (ratOps f) _ (x * (zj * zk)) 0)
+          (@jprime Rat (ratOps f) _ ((x * zj) * zj) 0) (@jprime Rat (ratOps f) _ ((x * zk) * zk) 0) := by
+  intro xcon x
+  let _i : NumOps Dual := dualOps f
+  let _r : NumOps Rat := ratOps f
+  have hI : I ≠ 0 := by
+    intro h
+    have h2 : f.sqrt I * f.sqrt I = 0 := by rw [hs]; exact h
+    rcases mul_eq_zero.mp h2 with h' | h' <;> exact hs0 h'
+  have hx : x ≠ 0 := by
+    simp only [x]; exact mul_ne_zero (mul_ne_zero (by norm_num) ha) hs0
+  -- the three arguments as dual numbers
+  have hxc : xcon = Dual.mk x (6 * a0 * (dI / (2 * f.sqrt I))) := by
+    apply dual_ext <;> simp [xcon, x]
+  have key : ∀ c : Rat, c ≠ 0 → ∀ (XD : Dual), XD = Dual.mk (x * c) (6 * a0 * (dI / (2 * f.sqrt I)) * c) →
+      (jay XD).re = @jay Rat (ratOps f) _ (x * c) ∧
+      (jay XD).eps = dI / (2 * I) * @jprime Rat (ratOps f) _ (x * c) 0 := by
+    intro c hc XD hXD
+    subst hXD
+    refine ⟨jay_re f _ _, ?_⟩
+    have hj := jay_eps f (x * c) (6 * a0 * (dI / (2 * f.sqrt I)) * c) (mul_ne_zero hx hc)
+    have hxc' : x * c ≠ 0 := mul_ne_zero hx hc
+    have : (@jay Dual (dualOps f) _ (Dual.mk (x * c) (6 * a0 * (dI / (2 * f.sqrt I)) * c))).eps
+        = (6 * a0 * (dI / (2 * f.sqrt I)) * c) * @jprime Rat (ratOps f) _ (x * c) 0 / (x * c) := by
+      rw [eq_div_iff hxc', mul_comm]; exact hj
+    rw [this]
+    have hI2 : dI / (2 * I) = dI / (2 * (f.sqrt I * f.sqrt I)) := by rw [hs]
+    rw [hI2]
+    have hx' : x = 6 * a0 * f.sqrt I := rfl
+    generalize @jprime Rat (ratOps f) _ (x * c) 0 = P
+    rw [hx']
+    generalize f.sqrt I = s at hs0 ⊢
+    field_simp
+  obtain ⟨rjk, ejk⟩ := key (zj * zk) (mul_ne_zero hzj hzk) (xcon * (Dual.const zj * Dual.const zk)) (by
+    rw [hxc]; apply dual_ext <;> simp)
+  obtain ⟨rjj, ejj⟩ := key (zj * zj) (mul_ne_zero hzj hzj) ((xcon * Dual.const zj) * Dual.const zj) (by
+    rw [hxc]; apply dual_ext <;> simp <;> ring)
+  obtain ⟨rkk, ekk⟩ := key (zk * zk) (mul_ne_zero hzk hzk) ((xcon * Dual.const zk) * Dual.const zk) (by
+    rw [hxc]; apply dual_ext <;> simp <;> ring)
+  have e1 : (x * zj) * zj = x * (zj * zj) := by ring
+  have e2 : (x * zk) * zk = x * (zk * zk) := by ring
+  rw [e1, e2]
+  unfold ethetapOf ethetaOf
+  by_cases hz : zj = zk
+  · have h1 : isZero (Dual.const zj - Dual.const zk) = true := by
+      have : Dual.const zj - Dual.const zk = Dual.const (zj - zk) := dual_ext rfl (by simp)
+      rw [this]; exact (isZero_const f _).mpr (by simp [hz])
+    have h2 : @isZero Rat (ratOps f) _ (zj - zk) = true := by
+      simp [isZero, hz]
+    rw [if_pos h1, if_pos h2]; simp
+  · have h1 : ¬ (isZero (Dual.const zj - Dual.const zk) = true) := by
+      have : Dual.const zj - Dual.const zk = Dual.const (zj - zk) := dual_ext rfl (by simp)
+      rw [this]; intro h; exact hz (sub_eq_zero.mp ((isZero_const f _).mp h))
+    have h2 : ¬ (@isZero Rat (ratOps f) _ (zj - zk) = true) := by
+      intro h
+      simp only [isZero, rat_lit, Bool.and_eq_true] at h
+      exact hz (sub_eq_zero.mp (le_antisymm (of_decide_eq_true h.1) (of_decide_eq_true h.2)))
+    simp only [if_neg h1, if_neg h2]
+    simp only [d_div_eps, d_div_re, d_mul_eps, d_mul_re, d_sub_eps, d_sub_re, d_const_re, d_const_eps, d_lit_re, d_lit_eps,
+      d_mk_re, d_mk_eps, rjk, rjj, rkk, ejk, ejj, ekk, rat_lit]
+    field_simp
+    ring
+
+end cheb2
+end PhreeqcVerif.Pitzer
+
+namespace PhreeqcVerif.Pitzer
+open NumOps
+
+section gders
+variable (f : TransFns Rat)
+
+theorem isZero_dual (y : Dual) : (letI := dualOps f; isZero y) = (letI := ratOps f; isZero y.re) := rfl
+
+/-- **the hypotheses `IRel` makes about β¹/β², derived from the coded `G`, `GP`**: on `y + dy ε` with `y = α√I`,
+`dy = α dI/(2√I)` (so `dI/I = 2 dy / y`), the first-order part of `G` is `GP(y) · dI / I`, and `exp(−y) = G + GP` holds for
+the first-order parts too — with the derivative rule of `exp` only -/
+theorem g_derivative (y dy : Rat) (hy : y ≠ 0) :
+    letI := dualOps f
+    (G (Dual.mk y dy)).eps = (@GP Rat (ratOps f) _ y) * (2 * dy / y) ∧
+    (exp (-(Dual.mk y dy))).re = (G (Dual.mk y dy)).re + (GP (Dual.mk y dy)).re ∧
+    (exp (-(Dual.mk y dy))).eps = (G (Dual.mk y dy)).eps + (GP (Dual.mk y dy)).eps := by
+  let _i : NumOps Dual := dualOps f
+  let _r : NumOps Rat := ratOps f
+  have hzR : @isZero Rat (ratOps f) _ y = false := by
+    rw [Bool.eq_false_iff]; intro h
+    simp only [isZero, rat_lit, Bool.and_eq_true] at h
+    exact hy (le_antisymm (of_decide_eq_true h.1) (of_decide_eq_true h.2))
+  have hzD : isZero (Dual.mk y dy) = false := by rw [isZero_dual]; exact hzR
+  refine ⟨?_, ?_, ?_⟩
+  · simp only [G, GP, hzD, hzR, Bool.false_eq_true, if_false, d_div_eps, d_mul_eps, d_mul_re, d_sub_eps, d_sub_re, d_add_eps,
+      d_add_re, d_neg_re, d_neg_eps, d_lit_re, d_lit_eps, d_mk_re, d_mk_eps, d_exp_re, d_exp_eps, rat_lit, rat_exp]
+    field_simp
+    ring
+  · simp only [G, GP, hzD, Bool.false_eq_true, if_false, d_div_re, d_mul_re, d_sub_re, d_add_re, d_neg_re, d_lit_re, d_mk_re,
+      d_exp_re]
+    field_simp
+    ring
+  · simp only [G, GP, hzD, Bool.false_eq_true, if_false, d_div_eps, d_div_re, d_mul_eps, d_mul_re, d_sub_eps, d_sub_re,
+      d_add_eps, d_add_re, d_neg_re, d_neg_eps, d_lit_re, d_lit_eps, d_mk_re, d_mk_eps, d_exp_re, d_exp_eps]
+    field_simp
+    ring
+
+end gders
 end PhreeqcVerif.Pitzer
